@@ -1,1179 +1,71 @@
-(* C12 - proofs about the model FS/Exf.v *)
+(* C12 - proofs about the model FS/Exf.v, part 5: every call, every history; the refusals of the operating system.
+   (parts 1-4: Exf_base, Exf_inv, Exf_view, Exf_ops) *)
 Require Import ZArith List Bool Lia.
 Require Import IW.Lib.CInt IW.Gen.Facts IW.FS.Exf.
+Require Export IW.FS.Exf_base_proofs IW.FS.Exf_inv_proofs IW.FS.Exf_view_proofs IW.FS.Exf_ops_proofs.
 Import ListNotations.
 Local Open Scope Z_scope.
 Ltac Zify.zify_post_hook ::= Z.div_mod_to_equations.
 
 (* ---------------------------------------------------------------------------------------------- *)
-(* 1. IW_RANGES_OVERLAP, as translated from the current source, is interval intersection *)
-Lemma ranges_overlap_correct : forall s1 e1 s2 e2, s1 < e1 -> s2 < e2 ->
-  (IW_RANGES_OVERLAP s1 e1 s2 e2 <> 0 <-> Z.max s1 s2 < Z.min e1 e2).
+(* 9. registering and removing a window a reader cannot tell from the file: a shared one, an unmapped one, or a private one
+   without a detached page *)
+Definition harmless (s : slot) : Prop := s_priv s = false \/ s_len s = 0 \/ clean s.
+
+Lemma sbyte_clean : forall ps f s x, clean s -> sbyte ps f s x = znth (s_off s + x) f.
 Proof.
-  intros s1 e1 s2 e2 H1 H2. unfold IW_RANGES_OVERLAP.
-  destruct (Z.gtb_spec e1 s2), (Z.leb_spec e1 e2), (Z.geb_spec s1 s2), (Z.ltb_spec s1 e2),
-    (Z.leb_spec s1 s2), (Z.geb_spec e1 e2); simpl; split; intros; try lia; try congruence.
+  intros ps f s x H. unfold sbyte. destruct (nth (Z.to_nat (x / ps)) (s_pages s) None) as [b |] eqn:En; [| reflexivity].
+  exfalso. unfold clean in H. rewrite Forall_forall in H.
+  destruct (Nat.lt_ge_cases (Z.to_nat (x / ps)) (length (s_pages s))) as [Hlt | Hge].
+  - pose proof (nth_In (s_pages s) None Hlt) as Hin. rewrite En in Hin. specialize (H _ Hin). discriminate H.
+  - rewrite nth_overflow in En by lia. discriminate En.
 Qed.
 
-Lemma ranges_overlap_01 : forall s1 e1 s2 e2, IW_RANGES_OVERLAP s1 e1 s2 e2 = 0 \/ IW_RANGES_OVERLAP s1 e1 s2 e2 = 1.
+Lemma V_skip : forall ps fsz f s tl x, SlotsInv ps fsz (s :: tl) -> harmless s -> V ps f (s :: tl) x = V ps f tl x.
 Proof.
-  intros. unfold IW_RANGES_OVERLAP.
-  destruct (Z.gtb e1 s2), (Z.leb e1 e2), (Z.geb s1 s2), (Z.ltb s1 e2), (Z.leb s1 s2), (Z.geb e1 e2); simpl; auto.
+  intros ps fsz f s tl x HS Hh. unfold V. simpl. destruct (covers s x) eqn:Ec; [| reflexivity].
+  unfold covers in Ec. apply andb_true_iff in Ec. destruct Ec as [Ec Ec2]. apply andb_true_iff in Ec. destruct Ec as [Ep Ec1].
+  apply Z.leb_le in Ec1. apply Z.ltb_lt in Ec2.
+  inversion HS as [| s0 tl0 Hs Hfa Ht]; subst. destruct Hs as [_ [_ [Hm [_ [Hl _]]]]]. pose proof (slot_nlen_range fsz s Hm).
+  destruct Hh as [Hh | [Hh | Hh]]; [congruence | lia |].
+  rewrite sbyte_clean by exact Hh. replace (s_off s + (x - s_off s)) with x by lia. symmetry. apply vb_below.
+  eapply Forall_impl; [| exact Hfa]. simpl. intros t Ht0. lia.
 Qed.
 
-(* ---------------------------------------------------------------------------------------------- *)
-(* 2. the rounding macros on powers of two *)
-Lemma uw_small : forall b x, 0 <= x < 2 ^ b -> uw b x = x.
-Proof. intros. unfold uw. apply Z.mod_small; lia. Qed.
-
-Lemma land_uw_r : forall a b, 0 <= a < 2 ^ 64 -> Z.land a (uw 64 b) = Z.land a b.
+Lemma V_insert : forall ps fsz f ss ns ss' x, insert_slot ss ns = Some ss' -> SlotsInv ps fsz ss' -> harmless ns ->
+  V ps f ss' x = V ps f ss x.
 Proof.
-  intros a b Ha. unfold uw. rewrite <- (Z.land_ones b 64) by lia.
-  rewrite (Z.land_comm b), Z.land_assoc, (Z.land_ones a 64) by lia.
-  rewrite Z.mod_small by lia. reflexivity.
-Qed.
-
-Lemma land_lnot_pow2 : forall a k, 0 <= k -> Z.land a (Z.lnot (2 ^ k - 1)) = a / 2 ^ k * 2 ^ k.
-Proof.
-  intros a k Hk. rewrite <- Z.ldiff_land.
-  replace (2 ^ k - 1) with (Z.ones k) by (rewrite Z.ones_equiv; lia).
-  rewrite Z.ldiff_ones_r by lia. rewrite Z.shiftl_mul_pow2, Z.shiftr_div_pow2 by lia. reflexivity.
-Qed.
-
-Lemma pow2_bounds : forall k, 0 <= k < 63 -> 1 <= 2 ^ k < 2 ^ 63.
-Proof. intros. split. - assert (0 < 2 ^ k) by (apply Z.pow_pos_nonneg; lia). lia. - apply Z.pow_lt_mono_r; lia. Qed.
-
-Lemma IW_ROUNDUP_spec : forall k x, 0 <= k < 63 -> 0 <= x -> x + 2 ^ k <= 2 ^ 64 ->
-  IW_ROUNDUP x (2 ^ k) = rup x (2 ^ k).
-Proof.
-  intros k x Hk Hx Hb. pose proof (pow2_bounds k Hk) as Hp.
-  unfold IW_ROUNDUP, rup.
-  assert (E64 : 2 ^ 64 = 2 * 2 ^ 63) by reflexivity.
-  rewrite (uw_small 64 1) by lia.
-  destruct (Z.eq_dec (x + 2 ^ k) (2 ^ 64)) as [Heq | Hne].
-  - (* x + v wraps to 0: only possible when x + v = 2^64 *)
-    rewrite Heq. unfold uw at 2. rewrite Z.mod_same by lia.
-    replace (uw 64 (0 - 1)) with (2 ^ 64 - 1) by (unfold uw; reflexivity).
-    rewrite (uw_small 64 (2 ^ k - 1)) by lia.
-    rewrite land_uw_r by lia. rewrite land_lnot_pow2 by lia.
-    replace (x + 2 ^ k - 1) with (2 ^ 64 - 1) by lia. reflexivity.
-  - rewrite (uw_small 64 (x + 2 ^ k)) by lia.
-    rewrite (uw_small 64 (x + 2 ^ k - 1)) by lia.
-    rewrite (uw_small 64 (2 ^ k - 1)) by lia.
-    rewrite land_uw_r by lia. apply land_lnot_pow2; lia.
-Qed.
-
-Lemma IW_ROUNDOWN_spec : forall k x, 0 <= k < 63 -> 0 <= x < 2 ^ 64 ->
-  IW_ROUNDOWN x (2 ^ k) = x / 2 ^ k * 2 ^ k.
-Proof.
-  intros k x Hk Hx. pose proof (pow2_bounds k Hk) as Hp.
-  assert (E64 : 2 ^ 64 = 2 * 2 ^ 63) by reflexivity.
-  unfold IW_ROUNDOWN. rewrite (uw_small 64 1) by lia. rewrite (uw_small 64 (2 ^ k - 1)) by lia.
-  replace (2 ^ k - 1) with (Z.ones k) by (rewrite Z.ones_equiv; lia).
-  rewrite Z.land_ones by lia.
-  assert (0 < 2 ^ k) by lia.
-  pose proof (Z.mod_pos_bound x (2 ^ k) H). pose proof (Z.div_mod x (2 ^ k)).
-  pose proof (Z.mod_le x (2 ^ k)).
-  rewrite uw_small by lia. lia.
-Qed.
-
-Lemma aligned_spec : forall k x, 0 <= k < 63 -> 0 <= x < 2 ^ 64 -> aligned x (2 ^ k) = (x mod 2 ^ k =? 0).
-Proof.
-  intros k x Hk Hx. unfold aligned. rewrite uw_small by lia.
-  replace (2 ^ k - 1) with (Z.ones k) by (rewrite Z.ones_equiv; lia).
-  rewrite Z.land_ones by lia. reflexivity.
-Qed.
-
-Lemma sw_small : forall x, 0 <= x < 2 ^ 63 -> sw 64 x = x.
-Proof.
-  intros x Hx. unfold sw. change (2 ^ (64 - 1)) with (2 ^ 63).
-  assert (E64 : 2 ^ 64 = 2 * 2 ^ 63) by reflexivity.
-  rewrite Z.mod_small by lia. lia.
-Qed.
-
-(* rounding up, arithmetic facts *)
-Lemma rup_ge : forall x ps, 0 < ps -> x <= rup x ps.
-Proof. intros. unfold rup. pose proof (Z.div_mod (x + ps - 1) ps). pose proof (Z.mod_pos_bound (x + ps - 1) ps H). lia. Qed.
-Lemma rup_lt : forall x ps, 0 < ps -> rup x ps < x + ps.
-Proof. intros. unfold rup. pose proof (Z.div_mod (x + ps - 1) ps). pose proof (Z.mod_pos_bound (x + ps - 1) ps H). lia. Qed.
-Lemma rup_mod : forall x ps, 0 < ps -> rup x ps mod ps = 0.
-Proof. intros. unfold rup. apply Z.mod_mul. lia. Qed.
-Lemma rup_id : forall x ps, 0 < ps -> x mod ps = 0 -> rup x ps = x.
-Proof.
-  intros x ps Hp Hm. unfold rup. apply Z.mod_divide in Hm; [| lia]. destruct Hm as [j Hj]. subst x.
-  replace (j * ps + ps - 1) with ((ps - 1) + j * ps) by lia.
-  rewrite Z.div_add by lia. rewrite Z.div_small by lia. lia.
-Qed.
-Lemma rup_mono : forall x y ps, 0 < ps -> x <= y -> rup x ps <= rup y ps.
-Proof. intros. unfold rup. apply Z.mul_le_mono_nonneg_r; [lia |]. apply Z.div_le_mono; lia. Qed.
-Lemma rup_le_aligned : forall x m ps, 0 < ps -> x <= m -> m mod ps = 0 -> rup x ps <= m.
-Proof. intros. rewrite <- (rup_id m ps) by assumption. apply rup_mono; assumption. Qed.
-Lemma rup_nonneg : forall x ps, 0 < ps -> 0 <= x -> 0 <= rup x ps.
-Proof. intros. pose proof (rup_ge x ps H). lia. Qed.
-
-Definition PsOk (ps : Z) : Prop := exists k, 0 <= k < 32 /\ ps = 2 ^ k.
-Definition LIM : Z := 2 ^ 61.
-
-Lemma PsOk_pos : forall ps, PsOk ps -> 1 <= ps <= 2 ^ 31.
-Proof.
-  intros ps [k [Hk E]]. subst. split.
-  - assert (0 < 2 ^ k) by (apply Z.pow_pos_nonneg; lia). lia.
-  - apply Z.pow_le_mono_r; lia.
-Qed.
-Lemma LIM_mod : forall ps, PsOk ps -> LIM mod ps = 0.
-Proof.
-  intros ps [k [Hk E]]. subst. unfold LIM. replace 61 with ((61 - k) + k) by lia.
-  rewrite Z.pow_add_r by lia. apply Z.mod_mul. assert (0 < 2 ^ k) by (apply Z.pow_pos_nonneg; lia). lia.
-Qed.
-
-Lemma roundup_ps : forall ps x, PsOk ps -> 0 <= x <= 2 ^ 63 -> IW_ROUNDUP x ps = rup x ps.
-Proof.
-  intros ps x HP Hx. pose proof (PsOk_pos ps HP). destruct HP as [k [Hk E]]. subst.
-  apply IW_ROUNDUP_spec; lia.
-Qed.
-Lemma rounddown_ps : forall ps x, PsOk ps -> 0 <= x < 2 ^ 64 -> IW_ROUNDOWN x ps = x / ps * ps.
-Proof. intros ps x [k [Hk E]] Hx. subst. apply IW_ROUNDOWN_spec; lia. Qed.
-Lemma aligned_ps : forall ps x, PsOk ps -> 0 <= x < 2 ^ 64 -> aligned x ps = (x mod ps =? 0).
-Proof. intros ps x [k [Hk E]] Hx. subst. apply aligned_spec; lia. Qed.
-
-(* ---------------------------------------------------------------------------------------------- *)
-(* 3. byte lists addressed by Z *)
-Lemma skipn_skipn' : forall (A : Type) (x y : nat) (l : list A), skipn x (skipn y l) = skipn (y + x) l.
-Proof. intros A x y. induction y as [| y IH]; intros l; simpl. - reflexivity. - destruct l; simpl. + apply skipn_nil. + apply IH. Qed.
-
-Section ZList.
-Context {A : Type}.
-Implicit Types l x y r : list A.
-
-Lemma zlen_nonneg : forall l, 0 <= zlen l. Proof. intros. unfold zlen. lia. Qed.
-Lemma zlen_app : forall x y, zlen (x ++ y) = zlen x + zlen y.
-Proof. intros. unfold zlen. rewrite app_length. lia. Qed.
-Lemma zlen_nil : zlen (@nil A) = 0. Proof. reflexivity. Qed.
-Lemma zlen_0_nil : forall l, zlen l = 0 -> l = []. Proof. intros l H. destruct l; [reflexivity | unfold zlen in H; simpl in H; lia]. Qed.
-Lemma zlen_ztake : forall n l, 0 <= n <= zlen l -> zlen (ztake n l) = n.
-Proof. intros n l H. unfold zlen, ztake in *. rewrite firstn_length_le by lia. lia. Qed.
-Lemma zlen_ztake_le : forall n l, zlen (ztake n l) <= zlen l.
-Proof. intros. unfold zlen, ztake. rewrite firstn_length. lia. Qed.
-Lemma zlen_ztake_min : forall n l, 0 <= n -> zlen (ztake n l) = Z.min n (zlen l).
-Proof. intros. unfold zlen, ztake. rewrite firstn_length. lia. Qed.
-Lemma zlen_zdrop : forall n l, 0 <= n <= zlen l -> zlen (zdrop n l) = zlen l - n.
-Proof. intros n l H. unfold zlen, zdrop in *. rewrite skipn_length. lia. Qed.
-Lemma ztake_zdrop : forall n l, ztake n l ++ zdrop n l = l.
-Proof. intros. apply firstn_skipn. Qed.
-Lemma ztake_all : forall n l, zlen l <= n -> ztake n l = l.
-Proof. intros. unfold ztake, zlen in *. apply firstn_all2. lia. Qed.
-Lemma zdrop_all : forall n l, zlen l <= n -> zdrop n l = [].
-Proof. intros. unfold zdrop, zlen in *. apply skipn_all2. lia. Qed.
-Lemma ztake_neg : forall n l, n <= 0 -> ztake n l = [].
-Proof. intros. unfold ztake. replace (Z.to_nat n) with O by lia. reflexivity. Qed.
-Lemma zdrop_neg : forall n l, n <= 0 -> zdrop n l = l.
-Proof. intros. unfold zdrop. replace (Z.to_nat n) with O by lia. reflexivity. Qed.
-Lemma ztake_app_exact : forall x r, ztake (zlen x) (x ++ r) = x.
-Proof.
-  intros. unfold ztake, zlen. rewrite Nat2Z.id. rewrite firstn_app, Nat.sub_diag. simpl.
-  rewrite firstn_all. apply app_nil_r.
-Qed.
-Lemma zdrop_app_exact : forall x r, zdrop (zlen x) (x ++ r) = r.
-Proof.
-  intros. unfold zdrop, zlen. rewrite Nat2Z.id. rewrite skipn_app, Nat.sub_diag, skipn_all. reflexivity.
-Qed.
-Lemma zdrop_app_more : forall x r k, 0 <= k -> zdrop (zlen x + k) (x ++ r) = zdrop k r.
-Proof.
-  intros. unfold zdrop, zlen. rewrite Z2Nat.inj_add, Nat2Z.id by lia.
-  rewrite skipn_app. rewrite skipn_all2 by lia. simpl. f_equal. lia.
-Qed.
-Lemma ztake_app_more : forall x r k, 0 <= k -> ztake (zlen x + k) (x ++ r) = x ++ ztake k r.
-Proof.
-  intros. unfold ztake, zlen. rewrite Z2Nat.inj_add, Nat2Z.id by lia. apply firstn_app_2.
-Qed.
-Lemma zdrop_zdrop : forall a b l, 0 <= a -> 0 <= b -> zdrop b (zdrop a l) = zdrop (a + b) l.
-Proof. intros. unfold zdrop. rewrite skipn_skipn'. f_equal. lia. Qed.
-Lemma ztake_ztake : forall a b l, 0 <= a <= b -> ztake a (ztake b l) = ztake a l.
-Proof. intros. unfold ztake. rewrite firstn_firstn. f_equal. lia. Qed.
-Lemma ztake_split : forall a b l, 0 <= a -> 0 <= b -> ztake (a + b) l = ztake a l ++ ztake b (zdrop a l).
-Proof.
-  intros a b l Ha Hb. rewrite <- (ztake_zdrop a l) at 1.
-  destruct (Z_le_gt_dec a (zlen l)).
-  - rewrite <- (zlen_ztake a l) at 1 by lia. apply ztake_app_more. lia.
-  - rewrite (zdrop_all a l) by lia. rewrite app_nil_r. rewrite (ztake_all a l) by lia.
-    rewrite ztake_all by lia. unfold ztake. rewrite firstn_nil. rewrite app_nil_r. reflexivity.
-Qed.
-End ZList.
-
-Lemma zdrop_app_len : forall (A : Type) (x r : list A) a, zlen x = a -> zdrop a (x ++ r) = r.
-Proof. intros. subst. apply zdrop_app_exact. Qed.
-Lemma ztake_app_len : forall (A : Type) (x r : list A) a, zlen x = a -> ztake a (x ++ r) = x.
-Proof. intros. subst. apply ztake_app_exact. Qed.
-
-Lemma zlen_zeros : forall n, 0 <= n -> zlen (zeros n) = n.
-Proof. intros. unfold zlen, zeros. rewrite repeat_length. lia. Qed.
-Lemma zeros_neg : forall n, n <= 0 -> zeros n = [].
-Proof. intros. unfold zeros. replace (Z.to_nat n) with O by lia. reflexivity. Qed.
-
-Lemma zlen_ftrunc : forall f n, 0 <= n -> zlen (ftrunc f n) = n.
-Proof.
-  intros f n Hn. unfold ftrunc. rewrite zlen_app. destruct (Z_le_gt_dec n (zlen f)).
-  - rewrite zlen_ztake by lia. rewrite zeros_neg by lia. unfold zlen. simpl. lia.
-  - rewrite ztake_all by lia. rewrite zlen_zeros by lia. lia.
-Qed.
-Lemma ftrunc_id : forall f, ftrunc f (zlen f) = f.
-Proof. intros. unfold ftrunc. rewrite ztake_all by lia. rewrite zeros_neg by lia. apply app_nil_r. Qed.
-
-Lemma pwrite_splice : forall f off d, 0 <= off -> off + zlen d <= zlen f -> pwrite f off d = splice f off d.
-Proof.
-  intros f off d Ho Hb. unfold pwrite, splice. destruct d as [| b d'].
-  - simpl. rewrite Z.add_0_r. symmetry. apply ztake_zdrop.
-  - pose proof (zlen_nonneg (b :: d')). rewrite zeros_neg by lia. reflexivity.
-Qed.
-Lemma zlen_splice : forall v p d, 0 <= p -> p + zlen d <= zlen v -> zlen (splice v p d) = zlen v.
-Proof.
-  intros v p d Hp Hb. pose proof (zlen_nonneg d). unfold splice. rewrite !zlen_app.
-  rewrite zlen_ztake by lia. rewrite zlen_zdrop by lia. lia.
-Qed.
-Lemma splice_app : forall f a d1 d2, 0 <= a -> a + zlen d1 + zlen d2 <= zlen f ->
-  splice (splice f a d1) (a + zlen d1) d2 = splice f a (d1 ++ d2).
-Proof.
-  intros f a d1 d2 Ha Hb. pose proof (zlen_nonneg d1). pose proof (zlen_nonneg d2).
-  unfold splice at 1 2.
-  assert (E : zlen (ztake a f ++ d1) = a + zlen d1) by (rewrite zlen_app, zlen_ztake by lia; reflexivity).
-  set (R := zdrop (a + zlen d1) f).
-  replace (ztake a f ++ d1 ++ R) with ((ztake a f ++ d1) ++ R) by (symmetry; apply app_assoc).
-  rewrite <- E. rewrite ztake_app_exact.
-  rewrite zdrop_app_more by lia. unfold R. rewrite zdrop_zdrop by lia.
-  unfold splice. rewrite zlen_app. rewrite <- !app_assoc. rewrite ?E. do 3 f_equal. f_equal. lia.
-Qed.
-Lemma pread_splice_same : forall f a d, 0 <= a <= zlen f -> pread (splice f a d) a (zlen d) = d.
-Proof.
-  intros f a d Ha. unfold pread, splice.
-  rewrite zdrop_app_len by (apply zlen_ztake; lia). apply ztake_app_exact.
-Qed.
-Lemma pread_app : forall f a n1 n2, 0 <= a -> 0 <= n1 -> 0 <= n2 ->
-  pread f a n1 ++ pread f (a + n1) n2 = pread f a (n1 + n2).
-Proof.
-  intros. unfold pread. rewrite <- zdrop_zdrop by lia. symmetry. apply ztake_split; lia.
-Qed.
-Lemma pread_nil : forall f a, pread f a 0 = []. Proof. reflexivity. Qed.
-Lemma zlen_pread : forall f a n, 0 <= a -> 0 <= n -> a + n <= zlen f -> zlen (pread f a n) = n.
-Proof. intros. unfold pread. rewrite zlen_ztake; [reflexivity |]. rewrite zlen_zdrop by lia. lia. Qed.
-(* a read that does not meet the written range sees the old bytes *)
-Lemma pread_splice_before : forall f a d b n, 0 <= b -> 0 <= n -> b + n <= a -> a + zlen d <= zlen f ->
-  pread (splice f a d) b n = pread f b n.
-Proof.
-  intros f a d b n Hb Hn Hl Hf. pose proof (zlen_nonneg d). unfold pread, splice.
-  rewrite <- (ztake_zdrop b (ztake a f)). rewrite <- app_assoc.
-  assert (E : zlen (ztake b (ztake a f)) = b) by (rewrite zlen_ztake; [lia | rewrite zlen_ztake by lia; lia]).
-  rewrite (zdrop_app_len _ (ztake b (ztake a f))) by exact E.
-  (* both sides: the first n of something starting with zdrop b (ztake a f) *)
-  assert (E2 : zdrop b (ztake a f) = ztake (a - b) (zdrop b f)).
-  { unfold zdrop, ztake. rewrite skipn_firstn_comm. f_equal. lia. }
-  rewrite E2.
-  assert (E3 : zlen (ztake (a - b) (zdrop b f)) = a - b) by (rewrite zlen_ztake; [lia | rewrite zlen_zdrop by lia; lia]).
-  replace (ztake n (ztake (a - b) (zdrop b f) ++ d ++ zdrop (a + zlen d) f))
-    with (ztake n (ztake (a - b) (zdrop b f))).
-  - apply ztake_ztake. lia.
-  - unfold ztake at 1 3. rewrite firstn_app. unfold zlen in E3.
-    replace (Z.to_nat n - length (ztake (a - b) (zdrop b f)))%nat with O by lia. simpl. rewrite app_nil_r. reflexivity.
-Qed.
-Lemma pread_splice_after : forall f a d b n, 0 <= a -> a + zlen d <= b -> 0 <= n -> a + zlen d <= zlen f ->
-  pread (splice f a d) b n = pread f b n.
-Proof.
-  intros f a d b n Ha Hl Hn Hf. pose proof (zlen_nonneg d). unfold pread, splice.
-  assert (E : zlen (ztake a f ++ d) = a + zlen d) by (rewrite zlen_app, zlen_ztake by lia; reflexivity).
-  rewrite app_assoc. replace b with (zlen (ztake a f ++ d) + (b - (a + zlen d))) at 1 by lia.
-  rewrite zdrop_app_more by lia. rewrite zdrop_zdrop by lia. do 2 f_equal. lia.
-Qed.
-
-(* ---------------------------------------------------------------------------------------------- *)
-(* 4. resize policies: the C arithmetic is the documented formula when nothing wraps *)
-Definition pol_ok (p : policy) : Prop :=
-  match p with
-  | PFibo prev => 0 <= prev <= LIM
-  | PMul n dn => 0 <= n < 2 ^ 31 /\ 0 <= dn < 2 ^ 31
-  | _ => True
-  end.
-(* the product formed by the multiplier policy fits *)
-Definition req_ok (p : policy) (nsize : Z) : Prop :=
-  match p with PMul n dn => nsize * n <= LIM | _ => True end.
-
-Lemma LIM_val : LIM = 2305843009213693952. Proof. reflexivity. Qed.
-Lemma OFFMAX_val : EXF_OFF_T_MAX = 9223372036854775807. Proof. reflexivity. Qed.
-
-Lemma default_szpolicy_spec : forall ps n, PsOk ps -> 0 <= n <= LIM -> default_szpolicy ps n = rup n ps.
-Proof.
-  intros ps n HP Hn. pose proof (PsOk_pos ps HP). rewrite LIM_val in Hn. unfold default_szpolicy.
-  rewrite uw_small by lia. rewrite roundup_ps by (auto; lia).
-  pose proof (rup_lt n ps). pose proof (rup_ge n ps). apply sw_small. lia.
-Qed.
-
-Lemma clamp_small : forall x, x <= EXF_OFF_T_MAX -> clamp_off x = x.
-Proof. intros. unfold clamp_off. destruct (Z.gtb_spec x EXF_OFF_T_MAX); lia. Qed.
-
-Lemma policy_call_spec : forall q ps p nsize csize,
-  q_mul_ge q = true -> PsOk ps -> pol_ok p -> 0 <= nsize <= LIM -> 0 <= csize <= LIM -> req_ok p nsize ->
-  policy_call q ps p nsize csize = spec_policy ps p nsize csize.
-Proof.
-  intros q ps p nsize csize Hq HP Hp Hn Hc Hr. pose proof (PsOk_pos ps HP) as Hps.
-  pose proof LIM_val as EL. pose proof OFFMAX_val as EO.
-  destruct p as [| prev | n dn |]; simpl in *.
-  - rewrite default_szpolicy_spec by auto. reflexivity.
-  - rewrite (uw_small 64 csize), (uw_small 64 prev), (uw_small 64 nsize) by lia.
-    rewrite (uw_small 64 (csize + prev)) by lia.
-    assert (E : (if csize + prev >? nsize then csize + prev else nsize) = Z.max (csize + prev) nsize)
-      by (destruct (Z.gtb_spec (csize + prev) nsize); lia).
-    rewrite E. rewrite roundup_ps by (auto; lia).
-    pose proof (rup_lt (Z.max (csize + prev) nsize) ps). rewrite clamp_small by lia. reflexivity.
-  - destruct Hp as [Hn1 Hd1]. destruct ((dn =? 0) || (n <? dn)) eqn:Efb.
-    + rewrite default_szpolicy_spec by auto. reflexivity.
-    + apply orb_false_iff in Efb. destruct Efb as [Ed En]. apply Z.eqb_neq in Ed. apply Z.ltb_ge in En.
-      rewrite Hq. simpl.
-      rewrite (uw_small 64 nsize), (uw_small 64 dn), (uw_small 64 n) by lia.
-      assert (Hq1 : 0 <= nsize / dn <= nsize).
-      { split. - apply Z.div_pos; lia. - apply Z.div_le_upper_bound; nia. }
-      assert (Hq2 : 0 <= nsize / dn * n <= nsize * n) by nia.
-      rewrite (uw_small 64 (nsize / dn * n)) by lia.
-      assert (E : (if nsize / dn * n <? nsize then nsize else nsize / dn * n) = Z.max (nsize / dn * n) nsize)
-        by (destruct (Z.ltb_spec (nsize / dn * n) nsize); lia).
-      rewrite E. rewrite roundup_ps by (auto; lia).
-      pose proof (rup_lt (Z.max (nsize / dn * n) nsize) ps). rewrite clamp_small by lia. reflexivity.
-  - rewrite default_szpolicy_spec by auto. reflexivity.
-Qed.
-
-(* what every policy of the specification guarantees *)
-Lemma spec_policy_ge : forall ps p nsize csize, 0 < ps ->
-  nsize <= fst (spec_policy ps p nsize csize) /\ fst (spec_policy ps p nsize csize) mod ps = 0.
-Proof.
-  intros ps p nsize csize Hps. destruct p as [| prev | n dn |]; simpl;
-    try (destruct ((dn =? 0) || (n <? dn)); simpl);
-    (split; [ match goal with |- _ <= rup ?x _ => pose proof (rup_ge x ps Hps); lia end | apply rup_mod; lia ]).
-Qed.
-
-Lemma spec_policy_pol_ok : forall ps p nsize csize, pol_ok p -> 0 <= csize <= LIM -> pol_ok (snd (spec_policy ps p nsize csize)).
-Proof.
-  intros ps p nsize csize Hp Hc. destruct p as [| prev | n dn |]; simpl in *; auto.
-  destruct ((dn =? 0) || (n <? dn)); simpl; auto.
-Qed.
-
-(* ---------------------------------------------------------------------------------------------- *)
-(* 5. the state invariant *)
-Definition slot_ok (ps fsz : Z) (s : slot) : Prop :=
-  0 <= s_off s /\ s_off s mod ps = 0 /\ 0 < s_maxlen s /\ s_maxlen s mod ps = 0 /\
-  s_len s = slot_nlen fsz s /\ s_priv s = false.
-
-(* sorted by offset, pairwise disjoint by maxlen, page aligned, mapped length as _exfile_initmmap_slot_lw sets it *)
-Inductive SlotsInv (ps fsz : Z) : list slot -> Prop :=
-| SI_nil : SlotsInv ps fsz []
-| SI_cons : forall s tl, slot_ok ps fsz s -> Forall (fun t => s_off s + s_maxlen s <= s_off t) tl ->
-    SlotsInv ps fsz tl -> SlotsInv ps fsz (s :: tl).
-
-Record Inv (st : exf) : Prop := mkInv {
-  inv_ps : PsOk (psize st);
-  inv_fs : 0 <= fsize st <= LIM /\ fsize st mod psize st = 0;
-  inv_file : zlen (file st) = fsize st;
-  inv_mo : 0 <= maxoff st <= LIM /\ maxoff st mod psize st = 0 /\ (maxoff st = 0 \/ fsize st <= maxoff st);
-  inv_pol : pol_ok (pol st);
-  inv_slots : SlotsInv (psize st) (fsize st) (slots st)
-}.
-
-Lemma slot_nlen_range : forall fsz s, 0 < s_maxlen s -> 0 <= slot_nlen fsz s <= s_maxlen s.
-Proof. intros. unfold slot_nlen. destruct (Z.geb_spec (s_off s) fsz); lia. Qed.
-
-Lemma initmmap_slot_fields : forall ps fsz s,
-  s_off (initmmap_slot ps fsz s) = s_off s /\ s_maxlen (initmmap_slot ps fsz s) = s_maxlen s /\
-  s_priv (initmmap_slot ps fsz s) = s_priv s /\ s_len (initmmap_slot ps fsz s) = slot_nlen fsz s.
-Proof.
-  intros. unfold initmmap_slot. destruct (Z.eqb_spec (slot_nlen fsz s) (s_len s)); simpl; auto.
-Qed.
-
-Lemma initmmap_inv : forall ps fsz0 fsz ss, SlotsInv ps fsz0 ss -> SlotsInv ps fsz (initmmap ps fsz ss).
-Proof.
-  intros ps fsz0 fsz ss H. induction H as [| s tl Hs Hf Ht IH]; simpl.
-  - constructor.
-  - destruct (initmmap_slot_fields ps fsz s) as [Eo [Em [Ep El]]]. constructor.
-    + destruct Hs as [H1 [H2 [H3 [H4 [H5 H6]]]]]. unfold slot_ok. rewrite Eo, Em, Ep, El.
-      repeat split; auto. unfold slot_nlen. rewrite Eo, Em. reflexivity.
-    + unfold initmmap. rewrite Forall_map. rewrite Eo, Em.
-      eapply Forall_impl; [| exact Hf]. intros t Ht0. simpl in Ht0.
-      destruct (initmmap_slot_fields ps fsz t) as [Eo' _]. rewrite Eo'. exact Ht0.
-    + exact IH.
-Qed.
-
-(* re-deriving the windows from the size they were derived from changes nothing (the truncfail exit) *)
-Lemma initmmap_id : forall ps fsz ss, SlotsInv ps fsz ss -> initmmap ps fsz ss = ss.
-Proof.
-  intros ps fsz ss HS. induction HS as [| s tl Hs0 Hf Ht IH]; simpl; [reflexivity |].
-  f_equal; [| exact IH]. unfold initmmap_slot. destruct Hs0 as [_ [_ [_ [_ [Hl _]]]]]. rewrite <- Hl. rewrite Z.eqb_refl. reflexivity.
-Qed.
-
-Lemma set_slots_id : forall st, set_slots st (slots st) = st.
-Proof. intros st. destruct st; reflexivity. Qed.
-
-Lemma truncfail_id : forall st, SlotsInv (psize st) (fsize st) (slots st) ->
-  set_slots st (initmmap (psize st) (fsize st) (slots st)) = st.
-Proof. intros st HS. rewrite initmmap_id by exact HS. apply set_slots_id. Qed.
-
-(* growing or shrinking to an aligned size: the only state change _exfile_truncate_lw makes *)
-Definition resized (st : exf) (n : Z) : exf :=
-  mkExf (ftrunc (file st) n) n (maxoff st) (psize st) (initmmap (psize st) n (slots st)) (pol st).
-
-Lemma resized_inv : forall st n, Inv st -> 0 <= n <= LIM -> n mod psize st = 0 ->
-  (maxoff st = 0 \/ n <= maxoff st) -> Inv (resized st n).
-Proof.
-  intros st n [H1 H2 H3 H4 H5 H6] Hn Hm Hmo. constructor; simpl; auto.
-  - apply zlen_ftrunc. lia.
-  - destruct H4 as [Ha [Hb Hc]]. auto.
-  - eapply initmmap_inv. exact H6.
-Qed.
-
-Lemma truncate_lw_eq : forall ok st size, Inv st -> 0 <= size <= LIM ->
-  truncate_lw ok st size =
-    let n := rup size (psize st) in
-    if fsize st =? n then (0, st)
-    else if (fsize st <? n) && negb (maxoff st =? 0) && (n >? maxoff st) then (EXF_E_MAXOFF, st)
-    else if (fsize st <? n) && negb (ok n) then (EXF_E_IO, st)
-    else (0, resized st n).
-Proof.
-  intros ok st size HI Hs. pose proof (inv_ps st HI) as HP. pose proof (PsOk_pos _ HP). rewrite LIM_val in Hs.
-  unfold truncate_lw. rewrite uw_small by lia. rewrite roundup_ps by (auto; lia). cbv zeta.
-  destruct (fsize st =? rup size (psize st)); [reflexivity |].
-  destruct (fsize st <? rup size (psize st)); simpl; [| reflexivity].
-  destruct (negb (maxoff st =? 0) && (rup size (psize st) >? maxoff st)); [reflexivity |].
-  destruct (ok (rup size (psize st))); simpl; [reflexivity |].
-  rewrite truncfail_id by (exact (inv_slots st HI)). reflexivity.
-Qed.
-
-Lemma abs_resized : forall st n, abs (resized st n) = spec_resize (abs st) n (pol st).
-Proof. reflexivity. Qed.
-
-Lemma truncate_lw_spec : forall ok st size rc st', Inv st -> 0 <= size <= LIM ->
-  truncate_lw ok st size = (rc, st') ->
-  spec_truncate (psize st) ok (abs st) size = (rc, abs st') /\ Inv st' /\ psize st' = psize st /\
-  (rc = 0 -> fsize st' = rup size (psize st)).
-Proof.
-  intros ok st size rc st' HI Hs E. rewrite truncate_lw_eq in E by assumption. cbv zeta in E.
-  pose proof (inv_ps st HI) as HP. pose proof (PsOk_pos _ HP) as Hps.
-  pose proof (inv_fs st HI) as [Hf1 Hf2]. pose proof (inv_file st HI) as Hfl. pose proof (inv_mo st HI) as [Hm1 [Hm2 Hm3]].
-  unfold spec_truncate, spec_grow. simpl. rewrite Hfl.
-  set (n := rup size (psize st)) in *.
-  assert (Hn : 0 <= n <= LIM).
-  { split. - apply rup_nonneg; lia. - apply rup_le_aligned; try lia. apply LIM_mod; auto. }
-  assert (Hnm : n mod psize st = 0) by (apply rup_mod; lia).
-  destruct (Z.eqb_spec (fsize st) n) as [Een | Een].
-  - inversion E; subst rc st'. clear E.
-    replace (negb (maxoff st =? 0) && (fsize st <? n) && (n >? maxoff st)) with false
-      by (destruct (Z.ltb_spec (fsize st) n); [lia | rewrite andb_false_r; reflexivity]).
-    replace (fsize st <? n) with false by (symmetry; apply Z.ltb_ge; lia). simpl.
-    split; [| split; [| split]]; auto. unfold spec_resize, abs. simpl. rewrite <- Een, <- Hfl, ftrunc_id. reflexivity.
-  - replace (negb (maxoff st =? 0) && (fsize st <? n) && (n >? maxoff st))
-      with ((fsize st <? n) && negb (maxoff st =? 0) && (n >? maxoff st))
-      by (destruct (fsize st <? n), (negb (maxoff st =? 0)); reflexivity).
-    destruct ((fsize st <? n) && negb (maxoff st =? 0) && (n >? maxoff st)) eqn:Emo.
-    + inversion E; subst rc st'. split; [| split; [| split]]; auto. intros Hrc. discriminate Hrc.
-    + destruct ((fsize st <? n) && negb (ok n)) eqn:Eos.
-      * inversion E; subst rc st'. split; [| split; [| split]]; auto. intros Hrc. discriminate Hrc.
-      * inversion E; subst rc st'. clear E. split; [| split; [| split]]; auto.
-        apply resized_inv; auto.
-        destruct (Z.ltb_spec (fsize st) n); destruct (Z.eqb_spec (maxoff st) 0); destruct (Z.gtb_spec n (maxoff st));
-          simpl in Emo; try discriminate; lia.
-Qed.
-
-Lemma truncate_lw_grow : forall ok st n, Inv st -> n mod psize st = 0 -> fsize st < n <= LIM ->
-  (maxoff st = 0 \/ n <= maxoff st) ->
-  truncate_lw ok st n = if ok n then (0, resized st n) else (EXF_E_IO, st).
-Proof.
-  intros ok st n HI Hm Hn Hmo. pose proof (inv_fs st HI) as [Hf1 Hf2]. pose proof (PsOk_pos _ (inv_ps st HI)).
-  rewrite truncate_lw_eq by (auto; lia). cbv zeta. rewrite rup_id by (auto; lia).
-  destruct (Z.eqb_spec (fsize st) n); [lia |].
-  destruct (Z.ltb_spec (fsize st) n); [| lia].
-  destruct (Z.eqb_spec (maxoff st) 0); simpl; [destruct (ok n); reflexivity |].
-  destruct (Z.gtb_spec n (maxoff st)); [lia | destruct (ok n); reflexivity].
-Qed.
-
-(* the same size change on the flat array *)
-Lemma spec_grow_grow : forall ok a n p, zlen (a_bytes a) < n ->
-  spec_grow ok a n p = if ok n then (0, spec_resize a n p) else (EXF_E_IO, mkFlat (a_bytes a) (a_maxoff a) p).
-Proof.
-  intros ok a n p Hn. unfold spec_grow. destruct (Z.ltb_spec (zlen (a_bytes a)) n); [| lia].
-  destruct (ok n); reflexivity.
-Qed.
-
-Lemma spec_policy_le : forall ps p nsize csize, PsOk ps -> pol_ok p -> 0 <= nsize <= LIM -> 0 <= csize <= LIM ->
-  req_ok p nsize -> fst (spec_policy ps p nsize csize) <= 2 * LIM + 2 ^ 31.
-Proof.
-  intros ps p nsize csize HP Hp Hn Hc Hr. pose proof (PsOk_pos ps HP) as Hps. pose proof LIM_val as EL.
-  assert (Hps0 : 0 < ps) by lia.
-  destruct p as [| prev | n dn |]; simpl in *.
-  - pose proof (rup_lt nsize ps Hps0). lia.
-  - pose proof (rup_lt (Z.max (csize + prev) nsize) ps Hps0). lia.
-  - destruct Hp as [Hn1 Hd1]. destruct ((dn =? 0) || (n <? dn)) eqn:Efb; simpl.
-    + pose proof (rup_lt nsize ps Hps0). lia.
-    + apply orb_false_iff in Efb. destruct Efb as [Ed En]. apply Z.eqb_neq in Ed. apply Z.ltb_ge in En.
-      assert (Hq1 : 0 <= nsize / dn <= nsize).
-      { split. - apply Z.div_pos; lia. - apply Z.div_le_upper_bound; nia. }
-      assert (Hq2 : 0 <= nsize / dn * n <= nsize * n) by nia.
-      pose proof (rup_lt (Z.max (nsize / dn * n) nsize) ps Hps0). lia.
-  - pose proof (rup_lt nsize ps Hps0). lia.
-Qed.
-
-Definition grow_ok (st : exf) (sz : Z) : Prop :=
-  req_ok (pol st) sz /\ (maxoff st <> 0 \/ fst (spec_policy (psize st) (pol st) sz (fsize st)) <= LIM).
-
-Lemma set_pol_inv : forall st p, Inv st -> pol_ok p -> Inv (set_pol st p).
-Proof. intros st p [H1 H2 H3 H4 H5 H6] Hp. constructor; simpl; auto. Qed.
-
-Lemma ensure_size_lw_spec : forall q ok st sz rc st', q_mul_ge q = true -> Inv st -> 0 <= sz <= LIM -> grow_ok st sz ->
-  ensure_size_lw q ok st sz = (rc, st') ->
-  spec_ensure (psize st) ok (abs st) sz = (rc, abs st') /\ Inv st' /\ psize st' = psize st /\ maxoff st' = maxoff st /\
-  slots st' = initmmap (psize st) (fsize st') (slots st) /\
-  (rc = 0 -> sz <= fsize st').
-Proof.
-  intros q ok st sz rc st' Hq HI Hs [Hr Hg] E.
-  pose proof (inv_ps st HI) as HP. pose proof (PsOk_pos _ HP) as Hps.
-  pose proof (inv_fs st HI) as [Hf1 Hf2]. pose proof (inv_file st HI) as Hfl.
-  pose proof (inv_mo st HI) as [Hm1 [Hm2 Hm3]]. pose proof (inv_pol st HI) as Hpo.
-  pose proof LIM_val as EL.
-  unfold ensure_size_lw in E. rewrite uw_small in E by lia.
-  unfold spec_ensure. simpl. rewrite Hfl.
-  destruct (Z.geb_spec (fsize st) sz) as [Hge | Hlt].
-  - inversion E; subst rc st'. split; [reflexivity |]. split; [assumption |]. split; [reflexivity |]. split; [reflexivity |].
-    split; [| intros; lia].
-    (* the slots are already those of this size *)
-    clear E. pose proof (inv_slots st HI) as HS. induction HS as [| s tl Hs0 Hf Ht IH]; simpl; [reflexivity |].
-    f_equal; [| exact IH]. unfold initmmap_slot. destruct Hs0 as [_ [_ [_ [_ [Hl _]]]]]. rewrite <- Hl. rewrite Z.eqb_refl. reflexivity.
-  - rewrite policy_call_spec in E by (auto; lia).
-    pose proof (spec_policy_ge (psize st) (pol st) sz (fsize st) ltac:(lia)) as [Hge Hmod].
-    pose proof (spec_policy_le (psize st) (pol st) sz (fsize st) HP Hpo Hs Hf1 Hr) as Hle.
-    pose proof (spec_policy_pol_ok (psize st) (pol st) sz (fsize st) Hpo Hf1) as Hpo'.
-    destruct (spec_policy (psize st) (pol st) sz (fsize st)) as [nsz pol'] eqn:Epol. simpl in Hge, Hmod, Hle, Hpo', Hg.
-    assert (HI1 : Inv (set_pol st pol')) by (apply set_pol_inv; auto).
-    replace ((nsz <? sz) || negb (aligned nsz (psize st))) with false in E.
-    2:{ rewrite aligned_ps by (auto; lia). rewrite Hmod. simpl. destruct (Z.ltb_spec nsz sz); [lia | reflexivity]. }
-    rewrite uw_small in E by lia.
-    destruct (negb (maxoff st =? 0) && (nsz >? maxoff st)) eqn:Eclip.
-    + apply andb_true_iff in Eclip. destruct Eclip as [Ec1 Ec2]. apply negb_true_iff in Ec1. apply Z.eqb_neq in Ec1.
-      apply Z.gtb_lt in Ec2. rewrite sw_small in E by lia.
-      destruct (Z.ltb_spec (maxoff st) sz) as [Hms | Hms].
-      * inversion E; subst rc st'. split; [reflexivity |]. split; [assumption |]. split; [reflexivity |]. split; [reflexivity |].
-        split; [| intros Hrc; discriminate Hrc]. simpl.
-        clear E. pose proof (inv_slots st HI) as HS. induction HS as [| s tl Hs0 Hf Ht IH]; simpl; [reflexivity |].
-        f_equal; [| exact IH]. unfold initmmap_slot. destruct Hs0 as [_ [_ [_ [_ [Hl _]]]]]. rewrite <- Hl. rewrite Z.eqb_refl. reflexivity.
-      * rewrite truncate_lw_grow in E by (auto; simpl; lia).
-        rewrite spec_grow_grow by (simpl; lia).
-        destruct (ok (maxoff st)).
-        -- inversion E; subst rc st'.
-           split; [reflexivity |]. split; [apply resized_inv; auto; simpl; lia |]. split; [reflexivity |]. split; [reflexivity |].
-           split; [reflexivity | intros; simpl; lia].
-        -- inversion E; subst rc st'.
-           split; [reflexivity |]. split; [assumption |]. split; [reflexivity |]. split; [reflexivity |].
-           split; [| intros Hrc; discriminate Hrc]. simpl. symmetry. apply initmmap_id. exact (inv_slots st HI).
-    + assert (Hnc : maxoff st = 0 \/ nsz <= maxoff st).
-      { destruct (Z.eqb_spec (maxoff st) 0); [left; assumption |]. simpl in Eclip. rewrite Z.gtb_ltb in Eclip. apply Z.ltb_ge in Eclip. right; lia. }
-      assert (Hnl : nsz <= LIM) by (destruct Hg as [Hg | Hg]; [destruct Hnc; lia | lia]).
-      rewrite truncate_lw_grow in E by (auto; simpl; lia).
-      rewrite spec_grow_grow by (simpl; lia).
-      destruct (ok nsz).
-      * inversion E; subst rc st'.
-        split; [reflexivity |]. split; [apply resized_inv; auto; simpl; lia |]. split; [reflexivity |]. split; [reflexivity |].
-        split; [reflexivity | intros; simpl; lia].
-      * inversion E; subst rc st'.
-        split; [reflexivity |]. split; [assumption |]. split; [reflexivity |]. split; [reflexivity |].
-        split; [| intros Hrc; discriminate Hrc]. simpl. symmetry. apply initmmap_id. exact (inv_slots st HI).
-Qed.
-
-(* ---------------------------------------------------------------------------------------------- *)
-(* 6. the split of a request over windows and file *)
-Definition mapped (s : slot) (x : Z) : Prop := s_off s <= x < s_off s + s_len s.
-
-Inductive Chain : Z -> list piece -> Z -> Prop :=
-| Chain_nil : forall a, Chain a [] a
-| Chain_cons : forall p tl a b, p_off p = a -> Chain (a + p_len p) tl b -> Chain a (p :: tl) b.
-
-Lemma Chain_app : forall a b c x y, Chain a x b -> Chain b y c -> Chain a (x ++ y) c.
-Proof. intros a b c x y H. induction H; intros; simpl; auto. constructor; auto. Qed.
-
-(* a piece served through window number j lies inside the mapped part of that window;
-   no byte of a piece served through the file is covered by a mapped window *)
-Definition piece_ok_at (ss : list slot) (i : nat) (lo : Z) (p : piece) : Prop :=
-  0 < p_len p /\ lo <= p_off p /\
-  match p_loc p with
-  | ViaWin j => (i <= j)%nat /\ exists s, nth_error ss (j - i) = Some s /\ s_off s <= p_off p /\ p_off p + p_len p <= s_off s + s_len s
-  | ViaFile => forall s x, In s ss -> p_off p <= x < p_off p + p_len p -> ~ mapped s x
-  end.
-Definition piece_ok (ss : list slot) (p : piece) : Prop := piece_ok_at ss 0 (p_off p) p.
-
-(* one iteration of the loop without the recursive call *)
-Definition step_slot (s : slot) (i : nat) (off wp : Z) : list piece * Z * Z :=
-  let '(p1, off1, wp1) :=
-    if s_off s >? off then
-      let len := Z.min wp (s_off s - off) in
-      ([mkPiece ViaFile off len], off + len, wp - len)
-    else ([], off, wp) in
-  let '(p2, off2, wp2) :=
-    if (wp1 >? 0) && (s_off s <=? off1) && (s_off s + s_len s >? off1) then
-      let len := Z.min wp1 (s_off s + s_len s - off1) in
-      ([mkPiece (ViaWin i) off1 len], off1 + len, wp1 - len)
-    else ([], off1, wp1) in
-  (p1 ++ p2, off2, wp2).
-
-Lemma split_cons : forall s tl i off wp,
-  split (s :: tl) i off wp =
-    if wp <=? 0 then ([], off, wp)
-    else if (s_len s =? 0) || (wp + off <=? s_off s) then ([], off, wp)
-    else let '(p12, off2, wp2) := step_slot s i off wp in
-         let '(ps, off3, wp3) := split tl (S i) off2 wp2 in (p12 ++ ps, off3, wp3).
-Proof.
-  intros. simpl. destruct (wp <=? 0); [reflexivity |].
-  destruct ((s_len s =? 0) || (wp + off <=? s_off s)); [reflexivity |].
-  unfold step_slot.
-  destruct (s_off s >? off);
-    match goal with |- context [if ?c then _ else _] => destruct c end;
-    destruct (split tl (S i) _ _) as [[ps off3] wp3]; rewrite <- ?app_assoc; reflexivity.
-Qed.
-
-Lemma step_slot_ok : forall s i off wp p12 off2 wp2,
-  0 < wp -> 0 < s_len s -> s_off s < wp + off ->
-  step_slot s i off wp = (p12, off2, wp2) ->
-  Chain off p12 off2 /\ off2 + wp2 = off + wp /\ 0 <= wp2 <= wp /\ (0 < wp2 -> s_off s + s_len s <= off2) /\
-  Forall (fun p => 0 < p_len p /\ off <= p_off p /\
-                   match p_loc p with
-                   | ViaWin j => j = i /\ s_off s <= p_off p /\ p_off p + p_len p <= s_off s + s_len s
-                   | ViaFile => p_off p + p_len p <= s_off s
-                   end) p12.
-Proof.
-  intros s i off wp p12 off2 wp2 Hwp Hl Hb E. unfold step_slot in E.
-  destruct (Z.gtb_spec (s_off s) off) as [Hgt | Hle].
-  - (* a part before the window goes through the file, then the window *)
-    replace (Z.min wp (s_off s - off)) with (s_off s - off) in E by lia.
-    replace (off + (s_off s - off)) with (s_off s) in E by lia.
-    destruct (Z.gtb_spec (wp - (s_off s - off)) 0); [| lia].
-    destruct (Z.leb_spec (s_off s) (s_off s)); [| lia].
-    destruct (Z.gtb_spec (s_off s + s_len s) (s_off s)); [| lia].
-    simpl in E. inversion E; subst p12 off2 wp2. clear E.
-    split; [| split; [| split; [| split]]].
-    + constructor; [reflexivity |]. simpl. replace (off + (s_off s - off)) with (s_off s) by lia.
-      constructor; [reflexivity |]. simpl. constructor.
-    + lia.
-    + lia.
-    + lia.
-    + constructor; [simpl; lia |]. constructor; [simpl; lia |]. constructor.
-  - destruct (Z.gtb_spec wp 0); [| lia].
-    destruct (Z.leb_spec (s_off s) off); [| lia].
-    destruct (Z.gtb_spec (s_off s + s_len s) off) as [Hin | Hout]; simpl in E; inversion E; subst p12 off2 wp2; clear E.
-    + split; [| split; [| split; [| split]]].
-      * constructor; [reflexivity |]. simpl. constructor.
-      * lia.
-      * lia.
-      * lia.
-      * constructor; [simpl; lia |]. constructor.
-    + split; [| split; [| split; [| split]]]; try lia; constructor.
-Qed.
-
-(* the geometry of a layout alone (shared or private windows) *)
-Definition slot_geo (ps fsz : Z) (s : slot) : Prop :=
-  0 <= s_off s /\ s_off s mod ps = 0 /\ 0 < s_maxlen s /\ s_maxlen s mod ps = 0 /\ s_len s = slot_nlen fsz s.
-Inductive LayoutInv (ps fsz : Z) : list slot -> Prop :=
-| LI_nil : LayoutInv ps fsz []
-| LI_cons : forall s tl, slot_geo ps fsz s -> Forall (fun t => s_off s + s_maxlen s <= s_off t) tl ->
-    LayoutInv ps fsz tl -> LayoutInv ps fsz (s :: tl).
-Lemma slot_ok_geo : forall ps fsz s, slot_ok ps fsz s -> slot_geo ps fsz s.
-Proof. intros ps fsz s [H1 [H2 [H3 [H4 [H5 _]]]]]. unfold slot_geo. auto. Qed.
-Lemma SlotsInv_Layout : forall ps fsz ss, SlotsInv ps fsz ss -> LayoutInv ps fsz ss.
-Proof. intros ps fsz ss H. induction H; constructor; auto. apply slot_ok_geo; assumption. Qed.
-Lemma LayoutInv_Forall : forall ps fsz ss, LayoutInv ps fsz ss -> Forall (slot_geo ps fsz) ss.
-Proof. intros ps fsz ss H. induction H; constructor; auto. Qed.
-
-Lemma SlotsInv_Forall : forall ps fsz ss, SlotsInv ps fsz ss -> Forall (slot_ok ps fsz) ss.
-Proof. intros ps fsz ss H. induction H; constructor; auto. Qed.
-
-Lemma slot_len_range : forall ps fsz s, slot_geo ps fsz s -> 0 <= s_len s <= s_maxlen s.
-Proof. intros ps fsz s [_ [_ [Hm [_ Hl]]]]. rewrite Hl. apply slot_nlen_range. exact Hm. Qed.
-
-Lemma slot_len0 : forall ps fsz s, slot_geo ps fsz s -> (s_len s = 0 <-> fsz <= s_off s).
-Proof.
-  intros ps fsz s [_ [_ [Hm [_ Hl]]]]. rewrite Hl. unfold slot_nlen.
-  destruct (Z.geb_spec (s_off s) fsz); lia.
-Qed.
-
-Lemma split_ok : forall ps fsz ss, LayoutInv ps fsz ss -> forall i off wp pcs off' wp',
-  split ss i off wp = (pcs, off', wp') ->
-  Chain off pcs off' /\ off' + wp' = off + wp /\
-  (wp <= 0 -> pcs = [] /\ wp' = wp) /\ (0 < wp -> 0 <= wp' <= wp) /\
-  Forall (piece_ok_at ss i off) pcs /\
-  (forall s x, In s ss -> off' <= x < off' + wp' -> ~ mapped s x).
-Proof.
-  intros ps fsz ss HS. induction HS as [| s tl Hs Hf Ht IH]; intros i off wp pcs off' wp' E.
-  - simpl in E. inversion E; subst. repeat split; try lia; try constructor. intros s x [].
-  - rewrite split_cons in E.
-    pose proof (slot_len_range _ _ _ Hs) as Hlr.
-    destruct (Z.leb_spec wp 0) as [Hwp | Hwp].
-    { inversion E; subst. repeat split; try lia; try constructor; try (unfold mapped; intros; lia). }
-    destruct ((s_len s =? 0) || (wp + off <=? s_off s)) eqn:Ebrk.
-    { inversion E; subst. split; [constructor |]. split; [lia |]. split; [intros; lia |]. split; [intros; lia |].
-      split; [constructor |].
-      intros s0 x Hin Hx Hm. unfold mapped in Hm. apply orb_true_iff in Ebrk. destruct Ebrk as [E0 | E1].
-      - apply Z.eqb_eq in E0. destruct Hin as [-> | Hin]; [lia |].
-        (* the later windows start beyond the end of the file as well *)
-        pose proof (proj1 (slot_len0 _ _ _ Hs) E0) as Hfs.
-        rewrite Forall_forall in Hf. specialize (Hf _ Hin).
-        pose proof (LayoutInv_Forall _ _ _ Ht) as Hall. rewrite Forall_forall in Hall. specialize (Hall _ Hin).
-        pose proof (proj2 (slot_len0 _ _ _ Hall)) as H0. destruct Hs as [_ [_ [Hml _]]]. lia.
-      - apply Z.leb_le in E1. destruct Hin as [-> | Hin]; [lia |].
-        rewrite Forall_forall in Hf. specialize (Hf _ Hin). destruct Hs as [_ [_ [Hml _]]]. lia. }
-    apply orb_false_iff in Ebrk. destruct Ebrk as [E0 E1]. apply Z.eqb_neq in E0. apply Z.leb_gt in E1.
-    destruct (step_slot s i off wp) as [[p12 off2] wp2] eqn:Est.
-    destruct (split tl (S i) off2 wp2) as [[pcs3 off3] wp3] eqn:Esp.
-    inversion E; subst pcs off' wp'. clear E.
-    destruct (step_slot_ok s i off wp p12 off2 wp2 Hwp ltac:(lia) ltac:(lia) Est) as [C1 [S1 [R1 [B1 F1]]]].
-    destruct (IH (S i) off2 wp2 pcs3 off3 wp3 Esp) as [C2 [S2 [Z2 [R2 [F2 A2]]]]].
-    assert (Hmax : 0 < s_maxlen s) by (destruct Hs as [_ [_ [Hml _]]]; exact Hml).
-    assert (Hlater : forall t, In t tl -> s_off s + s_maxlen s <= s_off t) by (rewrite Forall_forall in Hf; exact Hf).
-    split; [eapply Chain_app; eauto |]. split; [lia |]. split; [intros; lia |].
-    split. { intros _. destruct (Z_le_gt_dec wp2 0) as [Hz | Hz]; [destruct (Z2 Hz); lia | specialize (R2 ltac:(lia)); lia]. }
-    split.
-    + apply Forall_app. split.
-      * eapply Forall_impl; [| exact F1]. intros p [Hp1 [Hp2 Hp3]]. unfold piece_ok_at. split; [exact Hp1 |]. split; [exact Hp2 |].
-        destruct (p_loc p) as [| j].
-        -- intros s0 x Hin Hx Hm. unfold mapped in Hm. destruct Hin as [-> | Hin]; [lia |]. specialize (Hlater _ Hin). lia.
-        -- destruct Hp3 as [-> [Ha Hb]]. split; [lia |]. exists s. rewrite Nat.sub_diag. simpl. auto.
-      * destruct (Z_le_gt_dec wp2 0) as [Hz | Hz]; [destruct (Z2 Hz) as [-> _]; constructor |].
-        specialize (B1 ltac:(lia)).
-        eapply Forall_impl; [| exact F2]. intros p [Hp1 [Hp2 Hp3]]. unfold piece_ok_at. split; [exact Hp1 |]. split; [lia |].
-        destruct (p_loc p) as [| j].
-        -- intros s0 x Hin Hx Hm. destruct Hin as [-> | Hin]; [unfold mapped in Hm; lia | exact (Hp3 s0 x Hin Hx Hm)].
-        -- destruct Hp3 as [Hij [s' [Hn Hr]]]. split; [lia |]. exists s'. split; [| exact Hr].
-           replace (j - i)%nat with (S (j - S i)) by lia. simpl. exact Hn.
-    + intros s0 x Hin Hx Hm. destruct Hin as [-> | Hin]; [| exact (A2 s0 x Hin Hx Hm)].
-      unfold mapped in Hm. destruct (Z_le_gt_dec wp2 0) as [Hz | Hz]; [destruct (Z2 Hz); lia |].
-      specialize (B1 ltac:(lia)). specialize (R2 ltac:(lia)). lia.
-Qed.
-
-Lemma piece_ok_at_lo : forall ss i lo p, piece_ok_at ss i lo p -> piece_ok_at ss i (p_off p) p.
-Proof. intros ss i lo p [H1 [H2 H3]]. unfold piece_ok_at. split; [exact H1 |]. split; [lia | exact H3]. Qed.
-
-(* THEOREM split_covers *)
-Lemma split_covers : forall ps fsz ss off siz, LayoutInv ps fsz ss -> 0 <= siz ->
-  Chain off (split_all ss off siz) (off + siz) /\ Forall (piece_ok ss) (split_all ss off siz).
-Proof.
-  intros ps fsz ss off siz HS Hsiz. unfold split_all.
-  destruct (split ss 0 off siz) as [[pcs off'] wp'] eqn:E.
-  destruct (split_ok ps fsz ss HS 0%nat off siz pcs off' wp' E) as [C [S [Z0 [R [F A]]]]].
-  assert (Hw : 0 <= wp') by (destruct (Z_le_gt_dec siz 0) as [Hz | Hz]; [destruct (Z0 Hz); lia | specialize (R ltac:(lia)); lia]).
-  destruct (Z.gtb_spec wp' 0) as [Hpos | Hzero].
-  - split.
-    + eapply Chain_app; [exact C |]. constructor; [reflexivity |]. simpl. replace (off' + wp') with (off + siz) by lia. constructor.
-    + apply Forall_app. split.
-      * eapply Forall_impl; [| exact F]. intros p Hp. exact (piece_ok_at_lo _ _ _ _ Hp).
-      * constructor; [| constructor]. unfold piece_ok, piece_ok_at. simpl. split; [lia |]. split; [lia |]. exact A.
-  - rewrite app_nil_r. split.
-    + replace (off + siz) with off' by lia. exact C.
-    + eapply Forall_impl; [| exact F]. intros p Hp. exact (piece_ok_at_lo _ _ _ _ Hp).
-Qed.
-
-(* ---------------------------------------------------------------------------------------------- *)
-(* 7. shared windows are transparent: the pieces written/read one by one are one splice / one pread *)
-Lemma set_nth_same : forall (A : Type) (l : list A) i x, nth_error l i = Some x -> set_nth i x l = l.
-Proof.
-  intros A l. induction l as [| a tl IH]; intros i x H; destruct i; simpl in *; try discriminate.
-  - inversion H; reflexivity.
-  - f_equal. apply IH. exact H.
-Qed.
-
-Lemma splice_nil : forall f a, splice f a [] = f.
-Proof. intros. unfold splice. simpl. change (zlen (@nil Z)) with 0. rewrite Z.add_0_r. apply ztake_zdrop. Qed.
-
-Lemma Chain_bounds : forall a pcs b, Chain a pcs b -> Forall (fun p => 0 < p_len p) pcs -> a <= b.
-Proof.
-  intros a pcs b H. induction H; intros F. - lia. - inversion F; subst. specialize (IHChain H4). lia.
-Qed.
-
-Lemma piece_ok_len : forall ss pcs, Forall (piece_ok ss) pcs -> Forall (fun p => 0 < p_len p) pcs.
-Proof. intros. eapply Forall_impl; [| exact H]. intros p [Hp _]. exact Hp. Qed.
-
-Lemma win_shared : forall ps fsz ss j s p, SlotsInv ps fsz ss -> nth_error ss j = Some s ->
-  s_off s <= p_off p -> p_off p + p_len p <= s_off s + s_len s -> 0 < p_len p ->
-  s_priv s = false /\ in_win s (p_off p - s_off s) (p_len p) = true.
-Proof.
-  intros ps fsz ss j s p HS Hn H1 H2 H3. apply nth_error_In in Hn.
-  pose proof (SlotsInv_Forall _ _ _ HS) as Hall. rewrite Forall_forall in Hall. specialize (Hall _ Hn).
-  destruct Hall as [_ [_ [_ [_ [_ Hp]]]]]. split; [exact Hp |].
-  unfold in_win. apply andb_true_iff. split; [apply Z.leb_le; lia | apply Z.leb_le; lia].
-Qed.
-
-Lemma write_pieces_shared : forall ps fsz ss, SlotsInv ps fsz ss -> forall pcs a b data f,
-  Chain a pcs b -> Forall (piece_ok ss) pcs -> 0 <= a -> b <= zlen f -> zlen data = b - a ->
-  write_pieces ps pcs data f ss = Some (splice f a data, ss).
-Proof.
-  intros ps fsz ss HS pcs. induction pcs as [| p tl IH]; intros a b data f C F Ha Hb Hd.
-  - inversion C; subst. simpl. assert (data = []) by (apply zlen_0_nil; lia). subst. rewrite splice_nil. reflexivity.
-  - inversion C as [| p' tl' a' b' Hpo C']; subst. inversion F as [| p' tl' Fp Ft]; subst.
-    pose proof (Chain_bounds _ _ _ C' (piece_ok_len _ _ Ft)) as Hle.
-    destruct Fp as [Hlen [_ Hloc]].
-    set (d := ztake (p_len p) data).
-    assert (Hdl : zlen d = p_len p) by (apply zlen_ztake; lia).
-    assert (Estep : match p_loc p with
-                    | ViaFile => Some (pwrite f (p_off p) d, ss)
-                    | ViaWin i => match nth_error ss i with
-                                  | Some s => match win_write ps f s (p_off p - s_off s) d with
-                                              | Some (s', f') => Some (f', set_nth i s' ss)
-                                              | None => None end
-                                  | None => None end
-                    end = Some (splice f (p_off p) d, ss)).
-    { destruct (p_loc p) as [| j].
-      - rewrite pwrite_splice by lia. reflexivity.
-      - destruct Hloc as [_ [s [Hn [H1 H2]]]]. rewrite Nat.sub_0_r in Hn. rewrite Hn.
-        destruct (win_shared ps fsz ss j s p HS Hn H1 H2 Hlen) as [Hp Hw].
-        unfold win_write. rewrite Hdl, Hw, Hp.
-        replace (s_off s + (p_off p - s_off s)) with (p_off p) by lia.
-        rewrite pwrite_splice by lia. rewrite set_nth_same by exact Hn. reflexivity. }
-    simpl. fold d. rewrite Estep.
-    rewrite (IH (p_off p + p_len p) b (zdrop (p_len p) data) (splice f (p_off p) d) C' Ft).
-    + assert (Hrl : zlen (zdrop (p_len p) data) = b - p_off p - p_len p) by (rewrite zlen_zdrop by lia; lia).
-      f_equal. f_equal. replace (p_off p + p_len p) with (p_off p + zlen d) by lia.
-      rewrite splice_app by lia. unfold d. rewrite ztake_zdrop. reflexivity.
-    + lia.
-    + rewrite zlen_splice by lia. lia.
-    + rewrite zlen_zdrop by lia. lia.
-Qed.
-
-Lemma read_pieces_shared : forall ps fsz ss, SlotsInv ps fsz ss -> forall pcs a b f,
-  Chain a pcs b -> Forall (piece_ok ss) pcs -> 0 <= a ->
-  read_pieces ps pcs f ss = Some (pread f a (b - a)).
-Proof.
-  intros ps fsz ss HS pcs. induction pcs as [| p tl IH]; intros a b f C F Ha.
-  - inversion C; subst. simpl. rewrite Z.sub_diag. reflexivity.
-  - inversion C as [| p' tl' a' b' Hpo C']; subst. inversion F as [| p' tl' Fp Ft]; subst.
-    pose proof (Chain_bounds _ _ _ C' (piece_ok_len _ _ Ft)) as Hle.
-    destruct Fp as [Hlen [_ Hloc]].
-    assert (Estep : match p_loc p with
-                    | ViaFile => Some (pread f (p_off p) (p_len p))
-                    | ViaWin i => match nth_error ss i with
-                                  | Some s => win_read ps f s (p_off p - s_off s) (p_len p)
-                                  | None => None end
-                    end = Some (pread f (p_off p) (p_len p))).
-    { destruct (p_loc p) as [| j]; [reflexivity |].
-      destruct Hloc as [_ [s [Hn [H1 H2]]]]. rewrite Nat.sub_0_r in Hn. rewrite Hn.
-      destruct (win_shared ps fsz ss j s p HS Hn H1 H2 Hlen) as [Hp Hw].
-      unfold win_read. rewrite Hw, Hp. replace (s_off s + (p_off p - s_off s)) with (p_off p) by lia. reflexivity. }
-    simpl. rewrite Estep. rewrite (IH (p_off p + p_len p) b f C' Ft) by lia.
-    f_equal. rewrite pread_app by lia. f_equal. lia.
-Qed.
-
-(* ---------------------------------------------------------------------------------------------- *)
-(* 8. write and read against the flat array *)
-Lemma set_fs_inv : forall st f, Inv st -> zlen f = fsize st -> Inv (set_fs st f (slots st)).
-Proof. intros st f [H1 H2 H3 H4 H5 H6] Hf. constructor; simpl; auto. Qed.
-
-Lemma exfile_write_spec : forall q ok st off data rc sp st', q_mul_ge q = true -> Inv st ->
-  0 <= off -> off + zlen data <= LIM -> grow_ok st (off + zlen data) ->
-  exfile_write q ok st off data = (rc, sp, st') ->
-  spec_write (psize st) ok (abs st) off data = (rc, sp, abs st') /\ Inv st' /\ psize st' = psize st /\ maxoff st' = maxoff st.
-Proof.
-  intros q ok st off data rc sp st' Hq HI Hoff Hend Hg E.
-  pose proof (zlen_nonneg data) as Hdn. pose proof LIM_val as EL.
-  pose proof (inv_fs st HI) as [Hf1 Hf2]. pose proof (inv_file st HI) as Hfl. pose proof (inv_mo st HI) as [Hm1 _].
-  unfold exfile_write in E. rewrite sw_small in E by lia. rewrite uw_small in E by lia.
-  destruct (Z.ltb_spec off 0); [lia |]. destruct (Z.ltb_spec (off + zlen data) 0); [lia |]. simpl in E.
-  unfold spec_write. simpl.
-  destruct (negb (maxoff st =? 0) && (off + zlen data >? maxoff st)).
-  { inversion E; subst. auto. }
-  (* the size request *)
-  assert (Hens : exists rc1 st1, (if off + zlen data >? fsize st then ensure_size_lw q ok st (off + zlen data) else (0, st)) = (rc1, st1) /\
-            spec_ensure (psize st) ok (abs st) (off + zlen data) = (rc1, abs st1) /\ Inv st1 /\ psize st1 = psize st /\ maxoff st1 = maxoff st /\
-            (rc1 = 0 -> off + zlen data <= fsize st1)).
-  { destruct (Z.gtb_spec (off + zlen data) (fsize st)) as [Hgt | Hle].
-    - destruct (ensure_size_lw q ok st (off + zlen data)) as [rc1 st1] eqn:Ee. exists rc1, st1. split; [reflexivity |].
-      assert (Hrange : 0 <= off + zlen data <= LIM) by lia.
-      destruct (ensure_size_lw_spec q ok st (off + zlen data) rc1 st1 Hq HI Hrange Hg Ee) as [A [B [C [D [_ F]]]]]. auto.
-    - exists 0, st. split; [reflexivity |]. split; [| auto].
-      unfold spec_ensure. simpl. rewrite Hfl. destruct (Z.geb_spec (fsize st) (off + zlen data)); [reflexivity | lia]. }
-  destruct Hens as [rc1 [st1 [E1 [S1 [I1 [P1 [M1 F1]]]]]]]. rewrite E1 in E. rewrite S1.
-  destruct (Z.eqb_spec rc1 0) as [Hz | Hnz]; simpl in E |- *.
-  - subst rc1. specialize (F1 eq_refl).
-    pose proof (inv_file st1 I1) as Hfl1.
-    destruct (split_covers (psize st1) (fsize st1) (slots st1) off (zlen data) (SlotsInv_Layout _ _ _ (inv_slots st1 I1)) Hdn) as [C F].
-    rewrite (write_pieces_shared (psize st1) (fsize st1) (slots st1) (inv_slots st1 I1) _ off (off + zlen data) data (file st1) C F) in E by lia.
-    inversion E; subst rc sp st'. split; [reflexivity |]. split; [| auto].
-    apply set_fs_inv; [exact I1 |]. rewrite zlen_splice by lia. exact Hfl1.
-  - inversion E; subst rc sp st'. auto.
-Qed.
-
-Lemma pread_clip : forall f off n, 0 <= off -> zlen f - off <= n -> pread f off n = zdrop off f.
-Proof.
-  intros f off n Ho Hn. unfold pread.
-  destruct (Z_le_gt_dec off (zlen f)).
-  - apply ztake_all. rewrite zlen_zdrop by lia. lia.
-  - rewrite zdrop_all by lia. unfold ztake. apply firstn_nil.
-Qed.
-
-Lemma exfile_read_spec : forall st off siz, Inv st -> 0 <= off -> 0 <= siz -> off + siz <= LIM ->
-  exfile_read st off siz = (0, zlen (spec_read (abs st) off siz), spec_read (abs st) off siz).
-Proof.
-  intros st off siz HI Hoff Hsiz Hend. pose proof LIM_val as EL.
-  pose proof (inv_fs st HI) as [Hf1 Hf2]. pose proof (inv_file st HI) as Hfl.
-  unfold exfile_read, spec_read. simpl. rewrite sw_small by lia.
-  destruct (Z.ltb_spec off 0); [lia |]. destruct (Z.ltb_spec (off + siz) 0); [lia |]. simpl.
-  destruct (Z.gtb_spec (off + siz) (fsize st)) as [Hgt | Hle].
-  - destruct (Z_le_gt_dec off (fsize st)) as [Hin | Hout].
-    + destruct (split_covers (psize st) (fsize st) (slots st) off (fsize st - off) (SlotsInv_Layout _ _ _ (inv_slots st HI)) ltac:(lia)) as [C F].
-      rewrite (read_pieces_shared _ _ _ (inv_slots st HI) _ off (off + (fsize st - off)) (file st) C F) by lia.
-      replace (off + (fsize st - off) - off) with (fsize st - off) by lia.
-      rewrite (pread_clip (file st) off siz) by lia. rewrite (pread_clip (file st) off (fsize st - off)) by lia. reflexivity.
-    + (* beyond the end: nothing to split, nothing to read *)
-      unfold split_all.
-      assert (Es : split (slots st) 0 off (fsize st - off) = ([], off, fsize st - off)).
-      { destruct (slots st) as [| s tl]; [reflexivity |]. rewrite split_cons.
-        destruct (Z.leb_spec (fsize st - off) 0); [reflexivity | lia]. }
-      rewrite Es. destruct (Z.gtb_spec (fsize st - off) 0); [lia |]. simpl.
-      rewrite (pread_clip (file st) off siz) by lia. rewrite zdrop_all by lia. reflexivity.
-  - destruct (split_covers (psize st) (fsize st) (slots st) off siz (SlotsInv_Layout _ _ _ (inv_slots st HI)) Hsiz) as [C F].
-    rewrite (read_pieces_shared _ _ _ (inv_slots st HI) _ off (off + siz) (file st) C F) by lia.
-    replace (off + siz - off) with siz by lia. reflexivity.
-Qed.
-
-(* ---------------------------------------------------------------------------------------------- *)
-(* 9. window registration keeps the layout invariant *)
-Lemma insert_slot_In : forall ss ns ss', insert_slot ss ns = Some ss' -> forall t, In t ss' -> t = ns \/ In t ss.
-Proof.
-  induction ss as [| s tl IH]; intros ns ss' E t Ht; simpl in E.
-  - inversion E; subst. destruct Ht as [<- | []]. left; reflexivity.
+  intros ps fsz f ss. induction ss as [| s tl IH]; intros ns ss' x E HS Hh; simpl in E.
+  - inversion E; subst. apply (V_skip ps fsz); assumption.
   - destruct (negb (IW_RANGES_OVERLAP (s_off s) (s_off s + s_maxlen s) (s_off ns) (s_off ns + s_maxlen ns) =? 0)); [discriminate |].
     destruct (s_off ns <? s_off s).
-    + inversion E; subst. destruct Ht as [<- | Ht]; [left; reflexivity | right; exact Ht].
+    + inversion E; subst. apply (V_skip ps fsz); assumption.
     + destruct (insert_slot tl ns) as [tl' |] eqn:Ei; [| discriminate]. inversion E; subst.
-      destruct Ht as [<- | Ht]; [right; left; reflexivity |].
-      destruct (IH ns tl' Ei t Ht) as [-> | Hin]; [left; reflexivity | right; right; exact Hin].
+      inversion HS as [| s0 tl0 Hs Hfa Ht]; subst. unfold V in *. simpl. destruct (covers s x); [reflexivity |]. eapply IH; eauto.
 Qed.
 
-Lemma insert_slot_inv : forall ps fsz ss, SlotsInv ps fsz ss -> forall ns ss', slot_ok ps fsz ns ->
-  insert_slot ss ns = Some ss' -> SlotsInv ps fsz ss'.
+Lemma V_remove : forall ps fsz f ss off ss' x, remove_slot ss off = Some ss' -> SlotsInv ps fsz ss ->
+  (forall s, In s ss -> s_off s = off -> harmless s) -> V ps f ss' x = V ps f ss x.
 Proof.
-  intros ps fsz ss HS. induction HS as [| s tl Hs Hf Ht IH]; intros ns ss' Hns E; simpl in E.
-  - inversion E; subst. constructor; [exact Hns | constructor | constructor].
-  - assert (Hm1 : 0 < s_maxlen s) by (destruct Hs as [_ [_ [H _]]]; exact H).
-    assert (Hm2 : 0 < s_maxlen ns) by (destruct Hns as [_ [_ [H _]]]; exact H).
-    destruct (Z.eqb_spec (IW_RANGES_OVERLAP (s_off s) (s_off s + s_maxlen s) (s_off ns) (s_off ns + s_maxlen ns)) 0) as [Hno | Hov];
-      simpl in E; [| discriminate].
-    assert (Hdis : ~ Z.max (s_off s) (s_off ns) < Z.min (s_off s + s_maxlen s) (s_off ns + s_maxlen ns)).
-    { intros Hc. apply (ranges_overlap_correct (s_off s) (s_off s + s_maxlen s) (s_off ns) (s_off ns + s_maxlen ns)) in Hc; lia. }
-    destruct (Z.ltb_spec (s_off ns) (s_off s)) as [Hlt | Hge].
-    + inversion E; subst. constructor; [exact Hns | | constructor; assumption].
-      constructor; [lia |]. rewrite Forall_forall in Hf |- *. intros t Hin. specialize (Hf t Hin). lia.
-    + destruct (insert_slot tl ns) as [tl' |] eqn:Ei; [| discriminate]. inversion E; subst.
-      constructor; [exact Hs | | eapply IH; eauto].
-      rewrite Forall_forall in Hf |- *. intros t Hin.
-      destruct (insert_slot_In _ _ _ Ei t Hin) as [-> | Hin']; [lia | exact (Hf t Hin')].
-Qed.
-
-Lemma remove_slot_inv : forall ps fsz ss, SlotsInv ps fsz ss -> forall off ss',
-  remove_slot ss off = Some ss' -> SlotsInv ps fsz ss' /\ (forall t, In t ss' -> In t ss).
-Proof.
-  intros ps fsz ss HS. induction HS as [| s tl Hs Hf Ht IH]; intros off ss' E; simpl in E; [discriminate |].
-  destruct (s_off s =? off).
-  - inversion E; subst. split; [exact Ht | intros; right; assumption].
+  intros ps fsz f ss. induction ss as [| s tl IH]; intros off ss' x E HS Hh; simpl in E; [discriminate |].
+  destruct (Z.eqb_spec (s_off s) off) as [Eo | Eo].
+  - inversion E; subst ss'. symmetry. apply (V_skip ps fsz); [exact HS |]. apply Hh; [left; reflexivity | exact Eo].
   - destruct (remove_slot tl off) as [tl' |] eqn:Er; [| discriminate]. inversion E; subst.
-    destruct (IH off tl' Er) as [HS' Hsub]. split.
-    + constructor; [exact Hs | | exact HS']. rewrite Forall_forall in Hf |- *. intros t Hin. exact (Hf t (Hsub t Hin)).
-    + intros t [<- | Hin]; [left; reflexivity | right; exact (Hsub t Hin)].
+    inversion HS as [| s0 tl0 Hs Hfa Ht]; subst. unfold V in *. simpl. destruct (covers s x); [reflexivity |].
+    eapply IH; eauto. intros t Hin. apply Hh. right; exact Hin.
 Qed.
 
-Lemma set_slots_inv : forall st ss, Inv st -> SlotsInv (psize st) (fsize st) ss -> Inv (set_slots st ss).
-Proof. intros st ss [H1 H2 H3 H4 H5 H6] HS. constructor; simpl; auto. Qed.
-
-Lemma round_maxlen_ok : forall ps off maxlen, PsOk ps -> 0 <= off <= LIM -> 0 <= maxlen < 2 ^ 64 ->
-  0 <= round_maxlen ps off maxlen /\ round_maxlen ps off maxlen mod ps = 0.
+Lemma view_eq_V : forall st st', Inv st -> Inv st' -> fsize st' = fsize st ->
+  (forall x, 0 <= x -> V (psize st') (file st') (slots st') x = V (psize st) (file st) (slots st) x) -> view st' = view st.
 Proof.
-  intros ps off maxlen HP Ho Hm. pose proof (PsOk_pos ps HP) as Hps. pose proof LIM_val as EL. pose proof OFFMAX_val as EO.
-  unfold round_maxlen.
-  set (m := if EXF_OFF_T_MAX - off <? maxlen then EXF_OFF_T_MAX - off else maxlen).
-  assert (Hmr : 0 <= m <= 2 ^ 63) by (unfold m; destruct (Z.ltb_spec (EXF_OFF_T_MAX - off) maxlen); lia).
-  rewrite roundup_ps by (auto; lia). rewrite rounddown_ps by (auto; lia).
-  destruct ((rup m ps <? m) || (EXF_OFF_T_MAX - off <? rup m ps)).
-  - split; [| apply Z.mod_mul; lia]. apply Z.mul_nonneg_nonneg; [apply Z.div_pos; lia | lia].
-  - split; [apply rup_nonneg; lia | apply rup_mod; lia].
-Qed.
-
-Lemma add_mmap_lw_inv : forall st off maxlen flags rc st', Inv st -> 0 <= off <= LIM -> 0 <= maxlen < 2 ^ 64 ->
-  Z.land flags EXF_MMAP_PRIVATE = 0 ->
-  add_mmap_lw st off maxlen flags = (rc, st') -> Inv st' /\ abs st' = abs st /\ psize st' = psize st /\ maxoff st' = maxoff st.
-Proof.
-  intros st off maxlen flags rc st' HI Ho Hm Hfl E. pose proof (inv_ps st HI) as HP. pose proof LIM_val as EL.
-  unfold add_mmap_lw in E. rewrite aligned_ps in E by (auto; lia).
-  destruct (Z.eqb_spec (off mod psize st) 0) as [Hal | Hnal]; simpl in E; [| inversion E; subst; auto].
-  destruct (round_maxlen_ok (psize st) off maxlen HP Ho Hm) as [Hr1 Hr2].
-  destruct (Z.eqb_spec (round_maxlen (psize st) off maxlen) 0) as [Hz | Hnz]; [inversion E; subst; auto |].
-  rewrite Hfl in E. simpl in E.
-  set (ns0 := mkSlot off (round_maxlen (psize st) off maxlen) 0 false []) in E.
-  destruct (insert_slot (slots st) (initmmap_slot (psize st) (fsize st) ns0)) as [ss' |] eqn:Ei; inversion E; subst; auto.
-  split; [| auto]. apply set_slots_inv; [exact HI |].
-  eapply insert_slot_inv; [exact (inv_slots st HI) | | exact Ei].
-  destruct (initmmap_slot_fields (psize st) (fsize st) ns0) as [Eo [Em [Ep El]]].
-  unfold slot_ok. rewrite Eo, Em, Ep, El. simpl. repeat split; try lia; auto.
-  unfold slot_nlen. rewrite Eo, Em. reflexivity.
-Qed.
-
-Lemma remove_mmap_lw_inv : forall st off rc st', Inv st -> remove_mmap_lw st off = (rc, st') ->
-  Inv st' /\ abs st' = abs st /\ psize st' = psize st /\ maxoff st' = maxoff st.
-Proof.
-  intros st off rc st' HI E. unfold remove_mmap_lw in E.
-  destruct (remove_slot (slots st) off) as [ss' |] eqn:Er; inversion E; subst; auto.
-  split; [| auto]. apply set_slots_inv; [exact HI |]. exact (proj1 (remove_slot_inv _ _ _ (inv_slots st HI) _ _ Er)).
-Qed.
-
-Lemma remap_all_inv : forall st, Inv st -> Inv (remap_all st) /\ abs (remap_all st) = abs st.
-Proof.
-  intros st HI. split; [| reflexivity]. unfold remap_all. apply set_slots_inv; [exact HI |].
-  eapply initmmap_inv. exact (inv_slots st HI).
+  intros st st' HI HI' Hfs H. destruct (view_spec st HI) as [L0 X0]. destruct (view_spec st' HI') as [L1 X1].
+  apply list_eq_znth; [lia |]. intros x Hx. rewrite X1, X0 by lia. apply H. lia.
 Qed.
 
 (* ---------------------------------------------------------------------------------------------- *)
-(* 10. copy: the chunked loop of iwp_copy_bytes is one splice when the ranges do not overlap forward *)
-Lemma copy_loop_S : forall k f off siz noff pos,
-  copy_loop (S k) f off siz noff pos =
-    if pos <? siz then
-      match pread f (off + pos) (Z.min COPY_CHUNK (siz - pos)) with
-      | [] => f
-      | b => copy_loop k (pwrite f (noff + pos) b) off siz noff (pos + zlen b)
-      end
-    else f.
-Proof. reflexivity. Qed.
-
-Lemma pread_self_len : forall f a c, 0 <= c -> pread f a (zlen (pread f a c)) = pread f a c.
-Proof.
-  intros f a c Hc. unfold pread. set (X := zdrop a f). rewrite zlen_ztake_min by lia.
-  destruct (Z_le_gt_dec c (zlen X)).
-  - rewrite Z.min_l by lia. reflexivity.
-  - rewrite Z.min_r by lia. rewrite !ztake_all by lia. reflexivity.
-Qed.
-
-Lemma ztake_nil_pos : forall (A : Type) (X : list A) c, 0 < c -> ztake c X = [] -> X = [].
-Proof.
-  intros A X c Hc H. destruct X as [| x X']; [reflexivity |]. unfold ztake in H.
-  destruct (Z.to_nat c) eqn:En; [lia |]. simpl in H. discriminate.
-Qed.
-
-Lemma copy_loop_spec : forall f0 off siz noff, 0 <= off -> 0 <= noff -> 0 <= siz -> noff + siz <= zlen f0 ->
-  (noff <= off \/ off + siz <= noff) ->
-  forall fuel pos fk, siz - pos < Z.of_nat fuel -> 0 <= pos <= siz -> zlen (pread f0 off pos) = pos ->
-  fk = splice f0 noff (pread f0 off pos) ->
-  copy_loop fuel fk off siz noff pos = splice f0 noff (pread f0 off siz).
-Proof.
-  intros f0 off siz noff Hoff Hnoff Hsiz Hfit Hdir.
-  assert (HC : 0 < COPY_CHUNK) by reflexivity.
-  induction fuel as [| k IH]; intros pos fk Hfuel Hpos Hfull Hfk; [lia |].
-  rewrite copy_loop_S. destruct (Z.ltb_spec pos siz) as [Hlt | Hge].
-  - set (c := Z.min COPY_CHUNK (siz - pos)). assert (Hc : 0 < c <= siz - pos) by (unfold c; lia).
-    assert (Esrc : pread fk (off + pos) c = pread f0 (off + pos) c).
-    { subst fk. destruct Hdir as [Hd | Hd].
-      - apply pread_splice_after; lia.
-      - apply pread_splice_before; lia. }
-    rewrite Esrc. destruct (pread f0 (off + pos) c) as [| b0 b'] eqn:Eb.
-    + (* end of file: nothing more to copy *)
-      subst fk. f_equal. replace siz with (pos + (siz - pos)) by lia. rewrite <- pread_app by lia.
-      unfold pread in Eb. apply ztake_nil_pos in Eb; [| lia]. unfold pread at 3. rewrite Eb.
-      unfold ztake. rewrite firstn_nil. rewrite app_nil_r. reflexivity.
-    + rewrite <- Eb. set (b := pread f0 (off + pos) c) in *.
-      assert (Hbl : zlen b <= c) by (unfold b, pread; rewrite zlen_ztake_min by lia; lia).
-      assert (Hbn : 0 < zlen b) by (rewrite Eb; unfold zlen; simpl; lia).
-      assert (Eapp : pread f0 off (pos + zlen b) = pread f0 off pos ++ b).
-      { rewrite <- pread_app by lia. f_equal. unfold b. apply pread_self_len. lia. }
-      apply IH.
-      * lia.
-      * lia.
-      * rewrite Eapp, zlen_app, Hfull. reflexivity.
-      * subst fk. rewrite pwrite_splice; [| lia | rewrite zlen_splice by lia; lia].
-        rewrite Eapp. rewrite <- Hfull at 2. apply splice_app; lia.
-  - assert (pos = siz) by lia. subst pos. exact Hfk.
-Qed.
-
-Lemma file_copy_spec : forall f off siz noff rc f', 0 <= off -> 0 <= noff -> 0 <= siz -> noff + siz <= zlen f ->
-  file_copy f off siz noff = (rc, f') ->
-  (rc = 0 /\ f' = splice f noff (pread f off siz)) \/
-  (rc = EXF_E_OVERFLOW /\ f' = f /\ off < noff < off + siz).
-Proof.
-  intros f off siz noff rc f' Hoff Hnoff Hsiz Hfit E. unfold file_copy in E.
-  destruct (Z.eq_dec siz 0) as [Hz | Hnz].
-  - subst siz. replace (negb (IW_RANGES_OVERLAP off (off + 0) noff (noff + 0) =? 0) && (noff >? off)) with false in E.
-    + injection E as Hrc Hf. subst rc f'. left. split; [reflexivity |]. change (pread f off 0) with (@nil Z). rewrite splice_nil.
-      reflexivity.
-    + unfold IW_RANGES_OVERLAP. rewrite !Z.add_0_r.
-      destruct (Z.gtb_spec off noff), (Z.leb_spec off noff), (Z.geb_spec off noff), (Z.ltb_spec off noff); simpl; try lia; reflexivity.
-  - pose proof (ranges_overlap_correct off (off + siz) noff (noff + siz) ltac:(lia) ltac:(lia)) as Hov.
-    assert (Hloop : (noff <= off \/ off + siz <= noff) ->
-                    copy_loop (S (Z.to_nat siz)) f off siz noff 0 = splice f noff (pread f off siz)).
-    { intros Hdir. apply (copy_loop_spec f off siz noff Hoff Hnoff Hsiz Hfit Hdir); try lia.
-      - reflexivity.
-      - change (pread f off 0) with (@nil Z). rewrite splice_nil. reflexivity. }
-    destruct (Z.eqb_spec (IW_RANGES_OVERLAP off (off + siz) noff (noff + siz)) 0) as [Hno | Hyes]; cbn [negb andb] in E.
-    + injection E as Hrc Hf. subst rc f'. left. split; [reflexivity |]. apply Hloop.
-      destruct (Z_le_gt_dec noff off); [left; lia |]. right. destruct (Z_le_gt_dec (off + siz) noff); [lia |].
-      exfalso. apply (proj2 Hov); lia.
-    + destruct (Z.gtb_spec noff off) as [Hgt | Hle].
-      * injection E as Hrc Hf. subst rc f'. right. split; [reflexivity |]. split; [reflexivity |]. apply Hov in Hyes. lia.
-      * injection E as Hrc Hf. subst rc f'. left. split; [reflexivity |]. apply Hloop. left; lia.
-Qed.
-
-Definition FixedQ (q : quirks) : Prop := q_mul_ge q = true /\ q_copy_ensures q = true /\ q_copy_src q = true.
-
-Lemma slot_in_file : forall ps fsz s, slot_ok ps fsz s -> 0 < s_len s -> s_off s + s_len s <= fsz.
-Proof.
-  intros ps fsz s [_ [_ [Hm [_ [Hl _]]]]] Hpos. rewrite Hl in *. unfold slot_nlen in *.
-  destruct (Z.geb_spec (s_off s) fsz); lia.
-Qed.
-
-Lemma zlen_pread_le : forall f a n, 0 <= n -> zlen (pread f a n) <= n.
-Proof. intros. unfold pread. rewrite zlen_ztake_min by lia. lia. Qed.
-
-Lemma exfile_copy_spec : forall q ok st off siz noff rc st', FixedQ q -> Inv st ->
-  0 <= off -> 0 <= siz -> 0 <= noff -> off + siz <= LIM -> noff + siz <= LIM -> grow_ok st (noff + siz) ->
-  exfile_copy q ok st off siz noff = (rc, st') ->
-  spec_copy (psize st) ok (abs st) off siz noff rc (abs st') /\ Inv st' /\ psize st' = psize st /\ maxoff st' = maxoff st.
-Proof.
-  intros q ok st off siz noff rc st' [Hq1 [Hq2 Hq3]] HI Hoff Hsiz Hnoff He1 He2 Hg E. pose proof LIM_val as EL.
-  unfold exfile_copy in E. rewrite Hq2, Hq3 in E. rewrite sw_small in E by lia. rewrite !uw_small in E by lia.
-  destruct (ensure_size_lw q ok st (noff + siz)) as [rc0 st0] eqn:Ee.
-  assert (Hrange : 0 <= noff + siz <= LIM) by lia.
-  destruct (ensure_size_lw_spec q ok st (noff + siz) rc0 st0 Hq1 HI Hrange Hg Ee) as [S0 [I0 [P0 [M0 [_ F0]]]]].
-  unfold spec_copy. rewrite S0.
-  destruct (Z.eqb_spec rc0 0) as [Hz | Hnz]; simpl in E.
-  2:{ inversion E; subst rc st'. auto. }
-  subst rc0. specialize (F0 eq_refl). pose proof (inv_file st0 I0) as Hfl0.
-  (* the path through the file *)
-  assert (Hfile : forall rcf stf, (let '(rc, f') := file_copy (file st0) off siz noff in (rc, set_file st0 f')) = (rcf, stf) ->
-      ((rcf = 0 /\ abs stf = mkFlat (splice (file st0) noff (pread (file st0) off siz)) (maxoff st0) (pol st0)) \/
-       (rcf = EXF_E_OVERFLOW /\ off < noff < off + siz /\ abs stf = abs st0)) /\ Inv stf /\ psize stf = psize st /\ maxoff stf = maxoff st).
-  { intros rcf stf Ef. destruct (file_copy (file st0) off siz noff) as [rc1 f1] eqn:Efc. inversion Ef; subst rcf stf. clear Ef.
-    destruct (file_copy_spec (file st0) off siz noff rc1 f1 Hoff Hnoff Hsiz ltac:(lia) Efc) as [[-> ->] | [-> [-> Hfw]]].
-    - split; [left; split; reflexivity |]. split; [| auto].
-      change (set_file st0 (splice (file st0) noff (pread (file st0) off siz)))
-        with (set_fs st0 (splice (file st0) noff (pread (file st0) off siz)) (slots st0)).
-      apply set_fs_inv; [exact I0 |]. pose proof (zlen_pread_le (file st0) off siz Hsiz). rewrite zlen_splice by lia. exact Hfl0.
-    - split; [right; split; [reflexivity | split; [exact Hfw | reflexivity]] |]. split; [| auto].
-      destruct st0; exact I0. }
-  destruct (slots st0) as [| s tl] eqn:Ess.
-  - destruct (Hfile rc st' E) as [Hres [Hi [Hp Hm]]]. split; [| auto]. simpl. exact Hres.
-  - destruct ((0 <? s_len s) && (s_off s =? 0) && (s_len s >=? noff + siz)) eqn:Ecov.
-    2:{ destruct (Hfile rc st' E) as [Hres [Hi [Hp Hm]]]. split; [| auto]. simpl. exact Hres. }
-    destruct (Z.geb_spec (s_len s) (off + siz)) as [Hsrc | Hsrc]; simpl in E.
-    2:{ destruct (Hfile rc st' E) as [Hres [Hi [Hp Hm]]]. split; [| auto]. simpl. exact Hres. }
-    (* both ranges inside the first window: memmove *)
-    apply andb_true_iff in Ecov. destruct Ecov as [Ec12 Ec3]. apply andb_true_iff in Ec12. destruct Ec12 as [Ec1 Ec2].
-    apply Z.ltb_lt in Ec1. apply Z.eqb_eq in Ec2. apply Z.geb_le in Ec3.
-    pose proof (inv_slots st0 I0) as HS0. rewrite Ess in HS0. inversion HS0 as [| s' tl' Hsok Hfa Htl]; subst s' tl'.
-    pose proof (slot_in_file _ _ _ Hsok Ec1) as Hinf. destruct Hsok as [_ [_ [_ [_ [_ Hshared]]]]].
-    unfold win_read in E. unfold in_win in E.
-    destruct (Z.leb_spec 0 off); [| lia]. destruct (Z.leb_spec (off + siz) (s_len s)); [| lia]. simpl in E. rewrite Hshared in E.
-    rewrite Ec2 in E. simpl in E.
-    assert (Hbl : zlen (pread (file st0) off siz) = siz) by (apply zlen_pread; lia).
-    unfold win_write in E. unfold in_win in E. rewrite Hbl in E.
-    destruct (Z.leb_spec 0 noff); [| lia]. destruct (Z.leb_spec (noff + siz) (s_len s)); [| lia]. simpl in E. rewrite Hshared in E.
-    rewrite Ec2 in E. simpl in E. rewrite pwrite_splice in E by lia.
-    inversion E; subst rc st'. split; [left; split; reflexivity |]. split; [| auto].
-    rewrite <- Ess. apply set_fs_inv; [exact I0 |]. rewrite zlen_splice by lia. exact Hfl0.
-Qed.
-
-(* ---------------------------------------------------------------------------------------------- *)
-(* 11. every call, every history *)
-(* side conditions of one call: arguments are offsets/lengths below 2^61 (no C overflow), windows are MAP_SHARED,
-   and a size request does not push an unlimited file beyond 2^61 *)
+(* 10. every call *)
+(* side conditions of one call: arguments are offsets/lengths below 2^61 (no C overflow) and a size request does not push
+   an unlimited file beyond 2^61 *)
 Definition op_ok (st : exf) (o : op) : Prop :=
   match o with
   | OWrite off d => 0 <= off /\ off + zlen d <= LIM /\ grow_ok st (off + zlen d)
@@ -1181,83 +73,186 @@ Definition op_ok (st : exf) (o : op) : Prop :=
   | OCopy off siz noff => 0 <= off /\ 0 <= siz /\ 0 <= noff /\ off + siz <= LIM /\ noff + siz <= LIM /\ grow_ok st (noff + siz)
   | OTruncate sz => 0 <= sz <= LIM
   | OEnsure sz => 0 <= sz <= LIM /\ grow_ok st sz
-  | OAddMmap off maxlen flags => 0 <= off <= LIM /\ 0 <= maxlen < 2 ^ 64 /\ Z.land flags EXF_MMAP_PRIVATE = 0
-  | ORemoveMmap _ | ORemap | OSync => True
+  | OAddMmap off maxlen flags => 0 <= off <= LIM /\ 0 <= maxlen < 2 ^ 64
+  | _ => True
   end.
 
-Lemma step_refines : forall q ok st o r st', FixedQ q -> Inv st -> op_ok st o -> step q ok st o = (r, st') ->
-  spec_step_rel (psize st) ok (abs st) o r (abs st') /\ Inv st' /\ psize st' = psize st /\ maxoff st' = maxoff st.
+(* the call does not register a MAP_PRIVATE window *)
+Definition shared_op (o : op) : Prop :=
+  match o with OAddMmap _ _ flags => Z.land flags EXF_MMAP_PRIVATE = 0 | _ => True end.
+
+(* With MAP_PRIVATE windows: the call (whose result state is st') leaves every mapped private window mapped as it is
+   ("between two remaps"); a copy goes through the first window or touches no mapped private window; a window that is
+   removed holds no byte written through it. *)
+Definition quiet (st : exf) (o : op) (st' : exf) : Prop :=
+  PrivKept st (fsize st') /\
+  match o with
+  | OCopy off siz noff => copy_clean (slots st') off siz noff
+  | ORemoveMmap off => forall s, In s (slots st) -> s_off s = off -> harmless s
+  | _ => True
+  end.
+
+Lemma vabs_shared : forall st, Shared st -> vabs st = abs st.
+Proof. intros st H. unfold vabs, abs. rewrite view_shared by exact H. reflexivity. Qed.
+
+Lemma step_refines_v : forall q ok st o r st', FixedQ q -> Inv st -> Bud ok st -> op_ok st o -> step q ok st o = (r, st') ->
+  (Shared st /\ shared_op o) \/ (MapAll ok /\ Full st /\ quiet st o st') ->
+  spec_step_rel (psize st) ok (vabs st) o r (vabs st') /\ Inv st' /\ Bud ok st' /\ psize st' = psize st /\ maxoff st' = maxoff st /\
+  (Shared st -> shared_op o -> Shared st') /\ (MapAll ok -> Full st -> Full st').
 Proof.
-  intros q ok st o r st' HQ HI Hok E. pose proof HQ as [Hq1 _]. destruct o; simpl in *.
-  - destruct Hok as [H1 [H2 H3]]. destruct (exfile_write q ok st off d) as [[rc sp] st1] eqn:Ew. inversion E; subst r st'. simpl.
-    exact (exfile_write_spec q ok st off d rc sp st1 Hq1 HI H1 H2 H3 Ew).
-  - destruct Hok as [H1 [H2 H3]]. rewrite (exfile_read_spec st off n HI H1 H2 H3) in E. inversion E; subst r st'. simpl. auto.
-  - destruct Hok as [H1 [H2 [H3 [H4 [H5 H6]]]]]. destruct (exfile_copy q ok st off siz noff) as [rc st1] eqn:Ec. inversion E; subst r st'. simpl.
-    exact (exfile_copy_spec q ok st off siz noff rc st1 HQ HI H1 H2 H3 H4 H5 H6 Ec).
-  - destruct (truncate_lw ok st sz) as [rc st1] eqn:Et. inversion E; subst r st'. simpl.
-    destruct (truncate_lw_spec ok st sz rc st1 HI Hok Et) as [A [B [C D]]]. split; [exact A |]. split; [exact B |]. split; [exact C |].
-    rewrite truncate_lw_eq in Et by assumption. cbv zeta in Et.
-    destruct (fsize st =? rup sz (psize st)); [inversion Et; reflexivity |].
-    destruct ((fsize st <? rup sz (psize st)) && negb (maxoff st =? 0) && (rup sz (psize st) >? maxoff st)); [inversion Et; reflexivity |].
-    destruct ((fsize st <? rup sz (psize st)) && negb (ok (rup sz (psize st)))); inversion Et; reflexivity.
-  - destruct Hok as [H1 H2]. destruct (ensure_size_lw q ok st sz) as [rc st1] eqn:Ee. inversion E; subst r st'. simpl.
-    destruct (ensure_size_lw_spec q ok st sz rc st1 Hq1 HI H1 H2 Ee) as [A [B [C [D _]]]]. auto.
-  - destruct Hok as [H1 [H2 H3]]. destruct (add_mmap_lw st off maxlen flags) as [rc st1] eqn:Ea. inversion E; subst r st'. simpl.
-    destruct (add_mmap_lw_inv st off maxlen flags rc st1 HI H1 H2 H3 Ea) as [A [B [C D]]]. auto.
-  - destruct (remove_mmap_lw st off) as [rc st1] eqn:Er. inversion E; subst r st'. simpl.
-    destruct (remove_mmap_lw_inv st off rc st1 HI Er) as [A [B [C D]]]. auto.
-  - inversion E; subst r st'. destruct (remap_all_inv st HI) as [A B]. auto.
-  - inversion E; subst r st'. auto.
+  intros q ok st o r st' HQ HI HB Hok E Hcase. pose proof HQ as [Hq1 _].
+  assert (HR : Regime ok st) by (destruct Hcase as [[H _] | [HA [HF _]]]; [left; exact H | right; auto]).
+  assert (HKp : PrivKept st (fsize st')) by (destruct Hcase as [[H _] | [_ [_ [H _]]]]; [apply PrivKept_shared; exact H | exact H]).
+  destruct (view_spec st HI) as [L0 X0].
+  assert (Hsame : r = r -> st' = st -> Inv st' /\ Bud ok st' /\ psize st' = psize st /\ maxoff st' = maxoff st /\
+                  (Shared st -> shared_op o -> Shared st') /\ (MapAll ok -> Full st -> Full st')) by (intros _ ->; auto 8).
+  destruct o; simpl in E, Hok.
+  - (* write *)
+    destruct Hok as [H1 [H2 H3]]. destruct (exfile_write q ok st off d) as [[rc sp] st1] eqn:Ew. inversion E; subst r st'. simpl in *.
+    destruct (exfile_write_spec q ok st off d rc sp st1 Hq1 HI HB HR H1 H2 H3 Ew HKp) as [A [B [C [[D1 D2] [F G]]]]]. auto 8.
+  - (* read *)
+    destruct Hok as [H1 [H2 H3]]. rewrite (exfile_read_spec st off n HI (Regime_Reg _ _ HR) H1 H2 H3) in E. inversion E; subst r st'. simpl.
+    split; [auto |]. apply Hsame; reflexivity.
+  - (* copy *)
+    destruct Hok as [H1 [H2 [H3 [H4 [H5 H6]]]]]. destruct (exfile_copy q ok st off siz noff) as [rc st1] eqn:Ec. inversion E; subst r st'. simpl in *.
+    assert (Hcc : Shared st \/ copy_clean (slots st1) off siz noff) by (destruct Hcase as [[H _] | [_ [_ [_ H]]]]; [left; exact H | right; exact H]).
+    destruct (exfile_copy_spec q ok st off siz noff rc st1 HQ HI HB HR H1 H2 H3 H4 H5 H6 Ec HKp Hcc) as [A [B [C [[D1 D2] [F G]]]]]. auto 8.
+  - (* truncate *)
+    destruct (truncate_lw ok st sz) as [rc st1] eqn:Et. inversion E; subst r st'. simpl in *.
+    destruct (truncate_lw_spec ok st sz rc st1 HI HB Hok Et) as [A [B [C [D [P [F [G [R0 [RN [_ [_ [MA SP]]]]]]]]]]]].
+    assert (Hv : view st1 = ftrunc (view st) (fsize st1)).
+    { apply view_resize; auto. destruct Hcase as [[HSh _] | [HA [HF _]]]; [left; auto | right; auto]. }
+    split.
+    + destruct (SP (view st) L0) as [SP1 | [SP1 St]]; [left | right].
+      * unfold vabs. rewrite Hv, D, P. exact SP1.
+      * unfold spec_mapfail. simpl. split; [exact SP1 |]. do 2 (split; [reflexivity |]).
+        split; [rewrite Hv, (RN ltac:(rewrite SP1; exact E_ERRNO_nz)), <- L0; apply ftrunc_id |]. split; [exact D | exact St].
+    + split; [exact A |]. split; [exact B |]. split; [exact C |]. split; [exact D |].
+      split; [intros HSh _; eapply GeoSame_shared; eauto | intros HA HF; unfold Full; rewrite (MA HA HF); apply pinit_full].
+  - (* ensure *)
+    destruct Hok as [H1 H2]. destruct (ensure_size_lw q ok st sz) as [rc st1] eqn:Ee. inversion E; subst r st'. simpl in *.
+    destruct (ensure_view q ok st sz rc st1 Hq1 HI HB HR H1 H2 Ee HKp) as [A [B [[D1 D2] [F [G [Hv [_ [RN S1]]]]]]]].
+    split; [| auto 8]. destruct S1 as [S1 | [S1 St]]; [left; exact S1 | right].
+    unfold spec_mapfail. simpl. split; [exact S1 |]. do 2 (split; [reflexivity |]).
+    split; [rewrite Hv, (RN ltac:(rewrite S1; exact E_ERRNO_nz)), <- L0; apply ftrunc_id |]. split; [exact G | exact St].
+  - (* add_mmap *)
+    destruct Hok as [H1 H2]. destruct (add_mmap_lw ok st off maxlen flags) as [rc st1] eqn:Ea. inversion E; subst r st'. simpl in *.
+    destruct (add_mmap_lw_spec ok st off maxlen flags rc st1 HI HB H1 H2 Ea) as [A [B [Cf [Cs [Cp [Cm [Cpo [Hne [Her [_ [HSh [HFu Hins]]]]]]]]]]]].
+    assert (Hv : view st1 = view st).
+    { destruct (Z.eq_dec rc 0) as [Hz | Hnz]; [| rewrite (Hne Hnz); reflexivity].
+      destruct (Hins Hz) as [ns [Ei [Hcl _]]]. apply view_eq_V; auto. intros x Hx. rewrite Cp, Cf.
+      apply (V_insert (psize st) (fsize st) _ _ _ _ _ Ei); [rewrite <- Cp, <- Cs; exact (inv_slots st1 A) | right; right; exact Hcl]. }
+    split; [split; [unfold vabs; rewrite Hv, Cm, Cpo; reflexivity | exact Her] |]. auto 8.
+  - (* remove_mmap *)
+    destruct (remove_mmap_lw st off) as [rc st1] eqn:Er. inversion E; subst r st'. simpl in *.
+    destruct (remove_mmap_lw_spec ok st off rc st1 HI HB Er) as [A [B [Cf [Cs [Cp [Cm [Cpo [Hne [_ [HSh [HFu Hrm]]]]]]]]]]].
+    assert (Hv : view st1 = view st).
+    { destruct (Z.eq_dec rc 0) as [Hz | Hnz]; [| rewrite (Hne Hnz); reflexivity].
+      apply view_eq_V; auto. intros x Hx. rewrite Cp, Cf.
+      apply (V_remove (psize st) (fsize st) _ _ _ _ _ (Hrm Hz) (inv_slots st HI)).
+      destruct Hcase as [[HS _] | [_ [_ [_ Hh]]]]; [| exact Hh].
+      intros s Hin _. left. unfold Shared, SharedL in HS. rewrite Forall_forall in HS. exact (HS s Hin). }
+    split; [unfold vabs; rewrite Hv, Cm, Cpo; reflexivity |]. auto 8.
+  - (* remap_all *)
+    destruct (remap_all ok st) as [rc st1] eqn:Er. inversion E; subst r st'. simpl in *.
+    destruct (remap_all_spec ok st rc st1 HI HB Er) as [A [B [Cf [Cs [Cp [Cm [Cpo [G [D1 HFu]]]]]]]]].
+    assert (Hv : view st1 = view st).
+    { destruct Hcase as [[HSh _] | [_ [HF _]]].
+      - apply view_same; auto. + rewrite Cf, Cs. symmetry. rewrite <- (inv_file st HI). apply ftrunc_id.
+      - destruct (HFu HF) as [-> _]. reflexivity. }
+    split. { split; [unfold vabs; rewrite Hv, Cm, Cpo; reflexivity |]. intros Hrc. destruct D1 as [D1 | [_ D1]]; [| exact D1].
+             exfalso. rewrite D1 in Hrc. exact (E_ERRNO_nz (eq_sym Hrc)). }
+    split; [exact A |]. split; [exact B |]. split; [exact Cp |]. split; [exact Cm |].
+    split; [intros HSh _; eapply GeoSame_shared; eauto | intros _ HF; destruct (HFu HF) as [-> _]; exact HF].
+  - inversion E; subst r st'. split; [reflexivity | apply Hsame; reflexivity].
+  - destruct (probe_mmap (slots st) off) as [rc sp]. inversion E; subst r st'. split; [reflexivity | apply Hsame; reflexivity].
+  - destruct (acquire_mmap (slots st) off) as [rc sp]. inversion E; subst r st'. split; [reflexivity | apply Hsame; reflexivity].
+  - inversion E; subst r st'. split; [reflexivity | apply Hsame; reflexivity].
+  - inversion E; subst r st'. split; [reflexivity | apply Hsame; reflexivity].
+  - inversion E; subst r st'. simpl. split; [split; [reflexivity | split; [reflexivity | simpl; symmetry; exact L0]] | apply Hsame; reflexivity].
 Qed.
 
+(* ---------------------------------------------------------------------------------------------- *)
+(* 11. every history *)
+(* (A) MAP_SHARED windows; the operating system may refuse to grow the file and to map windows *)
 Fixpoint RunOk (q : quirks) (ok : os_ok) (st : exf) (os : list op) : Prop :=
   match os with
   | [] => True
-  | o :: tl => op_ok st o /\ RunOk q ok (snd (step q ok st o)) tl
+  | o :: tl => op_ok st o /\ shared_op o /\ RunOk q ok (snd (step q ok st o)) tl
   end.
 
-Lemma run_refines : forall q ok os st rs st', FixedQ q -> Inv st -> RunOk q ok st os -> run q ok st os = (rs, st') ->
-  spec_run_rel (psize st) ok (abs st) os rs (abs st') /\ Inv st' /\ psize st' = psize st /\ maxoff st' = maxoff st.
+Lemma run_refines : forall q ok os st rs st', FixedQ q -> Inv st -> Bud ok st -> Shared st -> RunOk q ok st os -> run q ok st os = (rs, st') ->
+  spec_run_rel (psize st) ok (abs st) os rs (abs st') /\ Inv st' /\ Bud ok st' /\ Shared st' /\ psize st' = psize st /\ maxoff st' = maxoff st.
 Proof.
-  intros q ok os. induction os as [| o tl IH]; intros st rs st' HQ HI Hok E; simpl in E.
-  - inversion E; subst. split; [constructor | auto].
-  - destruct Hok as [Ho Ht]. destruct (step q ok st o) as [r st1] eqn:Es. simpl in Ht.
+  intros q ok os. induction os as [| o tl IH]; intros st rs st' HQ HI HB HS Hok E; simpl in E.
+  - inversion E; subst. split; [constructor | auto 6].
+  - destruct Hok as [Ho [Hso Ht]]. destruct (step q ok st o) as [r st1] eqn:Es. simpl in Ht.
     destruct (run q ok st1 tl) as [rs1 st2] eqn:Er. inversion E; subst rs st'. clear E.
-    destruct (step_refines q ok st o r st1 HQ HI Ho Es) as [A [B [C D]]].
-    destruct (IH st1 rs1 st2 HQ B Ht Er) as [A' [B' [C' D']]].
-    split; [| split; [exact B' | split; congruence]].
-    econstructor; [exact A |]. rewrite <- C. exact A'.
+    destruct (step_refines_v q ok st o r st1 HQ HI HB Ho Es (or_introl (conj HS Hso))) as [A [B [C [D [F [G _]]]]]].
+    specialize (G HS Hso).
+    destruct (IH st1 rs1 st2 HQ B C G Ht Er) as [A' [B' [C' [G' [D' F']]]]].
+    split; [| split; [exact B' | split; [exact C' | split; [exact G' | split; congruence]]]].
+    apply SR_cons with (a1 := abs st1); [rewrite <- (vabs_shared st HS), <- (vabs_shared st1 G); exact A |]. rewrite <- D. exact A'.
+Qed.
+
+(* (B) MAP_PRIVATE windows allowed; mmap is not refused; between remaps *)
+Fixpoint PRunOk (q : quirks) (ok : os_ok) (st : exf) (os : list op) : Prop :=
+  match os with
+  | [] => True
+  | o :: tl => op_ok st o /\ quiet st o (snd (step q ok st o)) /\ PRunOk q ok (snd (step q ok st o)) tl
+  end.
+
+Lemma run_refines_private : forall q ok os st rs st', FixedQ q -> MapAll ok -> Inv st -> Full st -> PRunOk q ok st os ->
+  run q ok st os = (rs, st') ->
+  spec_run_rel (psize st) ok (vabs st) os rs (vabs st') /\ Inv st' /\ Full st' /\ psize st' = psize st /\ maxoff st' = maxoff st.
+Proof.
+  intros q ok os. induction os as [| o tl IH]; intros st rs st' HQ HA HI HF Hok E; simpl in E.
+  - inversion E; subst. split; [constructor | auto 6].
+  - destruct Hok as [Ho [Hqu Ht]]. destruct (step q ok st o) as [r st1] eqn:Es. simpl in Ht, Hqu.
+    destruct (run q ok st1 tl) as [rs1 st2] eqn:Er. inversion E; subst rs st'. clear E.
+    destruct (step_refines_v q ok st o r st1 HQ HI (MapAll_Bud ok _ HA) Ho Es (or_intror (conj HA (conj HF Hqu)))) as [A [B [C [D [F [_ G]]]]]].
+    specialize (G HA HF).
+    destruct (IH st1 rs1 st2 HQ HA B G Ht Er) as [A' [B' [G' [D' F']]]].
+    split; [| split; [exact B' | split; [exact G' | split; congruence]]].
+    apply SR_cons with (a1 := vabs st1); [exact A |]. rewrite <- D. exact A'.
 Qed.
 
 (* the size rules, read off the invariant: page aligned, below maxoff, equal to the length of the file on disk *)
-Lemma size_inv : forall q ok os st rs st', FixedQ q -> Inv st -> RunOk q ok st os -> run q ok st os = (rs, st') ->
+Lemma size_inv : forall q ok os st rs st', FixedQ q -> Inv st -> Bud ok st -> Shared st -> RunOk q ok st os -> run q ok st os = (rs, st') ->
   fsize st' mod psize st' = 0 /\ (maxoff st' = 0 \/ fsize st' <= maxoff st') /\ zlen (file st') = fsize st' /\
   maxoff st' = maxoff st.
 Proof.
-  intros q ok os st rs st' HQ HI Hok E. destruct (run_refines q ok os st rs st' HQ HI Hok E) as [_ [I' [_ M]]].
+  intros q ok os st rs st' HQ HI HB HS Hok E. destruct (run_refines q ok os st rs st' HQ HI HB HS Hok E) as [_ [I' [_ [_ [_ M]]]]].
+  pose proof (inv_fs st' I') as [_ H2]. pose proof (inv_mo st' I') as [_ [_ H3]]. pose proof (inv_file st' I'). auto.
+Qed.
+
+Lemma size_inv_private : forall q ok os st rs st', FixedQ q -> MapAll ok -> Inv st -> Full st -> PRunOk q ok st os -> run q ok st os = (rs, st') ->
+  fsize st' mod psize st' = 0 /\ (maxoff st' = 0 \/ fsize st' <= maxoff st') /\ zlen (file st') = fsize st' /\
+  maxoff st' = maxoff st.
+Proof.
+  intros q ok os st rs st' HQ HA HI HF Hok E. destruct (run_refines_private q ok os st rs st' HQ HA HI HF Hok E) as [_ [I' [_ [_ M]]]].
   pose proof (inv_fs st' I') as [_ H2]. pose proof (inv_mo st' I') as [_ [_ H3]]. pose proof (inv_file st' I'). auto.
 Qed.
 
 (* ... and it is what the next open sees: opening the file left behind (no initial size) yields the same size and content *)
-Lemma reopen_same : forall ok st mo p, Inv st -> psize st = EXF_PSIZE ->
-  exists st2, exfile_open ok (file st) 0 mo p = (0, st2) /\ fsize st2 = fsize st /\ file st2 = file st.
+Lemma reopen_same : forall q ok st mo p, Inv st -> psize st = EXF_PSIZE -> (mo <= 0 \/ EXF_PSIZE <= mo) ->
+  exists st2, exfile_open q ok (file st) 0 mo p = (0, st2) /\ fsize st2 = fsize st /\ file st2 = file st.
 Proof.
-  intros ok st mo p HI Hps. pose proof (inv_fs st HI) as [Hf1 Hf2]. pose proof (inv_file st HI) as Hfl. pose proof LIM_val.
+  intros q ok st mo p HI Hps Hmo. pose proof (inv_fs st HI) as [Hf1 Hf2]. pose proof (inv_file st HI) as Hfl. pose proof LIM_val.
   pose proof (inv_ps st HI) as HP. rewrite Hps in *.
-  unfold exfile_open. rewrite Hfl. destruct (Z.ltb_spec (fsize st) 0); [lia |].
+  unfold exfile_open. rewrite Hfl.
+  replace (q_maxoff_small q && (0 <? mo) && (mo <? EXF_PSIZE)) with false
+    by (destruct (Z.ltb_spec 0 mo), (Z.ltb_spec mo EXF_PSIZE); rewrite ?andb_false_r; try reflexivity; lia).
+  destruct (Z.ltb_spec (fsize st) 0); [lia |].
   rewrite aligned_ps by (auto; lia). rewrite Hf2. simpl. eexists. split; [reflexivity |]. simpl. auto.
 Qed.
 
-Lemma mkInv' : forall f fs mo ps ss p, PsOk ps -> 0 <= fs <= LIM -> fs mod ps = 0 -> zlen f = fs -> 0 <= mo <= LIM ->
-  mo mod ps = 0 -> (mo = 0 \/ fs <= mo) -> pol_ok p -> SlotsInv ps fs ss -> Inv (mkExf f fs mo ps ss p).
-Proof. intros. constructor; simpl; auto. Qed.
-
-(* the state right after iwfs_exfile_open satisfies the invariant *)
-Lemma open_inv : forall ok f initial mo p rc st, PsOk EXF_PSIZE -> zlen f <= LIM -> 0 <= initial <= LIM -> 0 <= mo <= LIM ->
+(* the state right after iwfs_exfile_open satisfies the invariant (no window yet: shared, full, within every budget) *)
+Lemma open_inv : forall q ok f initial mo p rc st, PsOk EXF_PSIZE -> zlen f <= LIM -> 0 <= initial <= LIM -> 0 <= mo <= LIM ->
   (mo < EXF_PSIZE \/ zlen f <= mo / EXF_PSIZE * EXF_PSIZE) -> pol_ok p ->
-  exfile_open ok f initial mo p = (rc, st) -> rc = 0 -> Inv st /\ psize st = EXF_PSIZE.
+  exfile_open q ok f initial mo p = (rc, st) -> rc = 0 -> Inv st /\ psize st = EXF_PSIZE /\ slots st = [].
 Proof.
-  intros ok f initial mo p rc st HP Hfl Hini Hmo Hmo2 Hp E Hrc. pose proof (PsOk_pos _ HP) as Hps. pose proof LIM_val as EL.
+  intros q ok f initial mo p rc st HP Hfl Hini Hmo Hmo2 Hp E Hrc. pose proof (PsOk_pos _ HP) as Hps. pose proof LIM_val as EL.
   pose proof (zlen_nonneg f) as Hfn.
   unfold exfile_open in E.
   set (m := if mo >=? EXF_PSIZE then IW_ROUNDOWN mo EXF_PSIZE else 0) in E.
@@ -1272,7 +267,8 @@ Proof.
   destruct Hm as [Hm1 [Hm2 Hm3]].
   set (st0 := mkExf f (zlen f) m EXF_PSIZE [] p) in E.
   (* st0 satisfies everything but alignment of the size; truncate_lw only needs the other parts *)
-  assert (Htr : forall size rc1 st1, 0 <= size <= LIM -> zlen f <= size -> truncate_lw ok st0 size = (rc1, st1) -> rc1 = 0 -> Inv st1 /\ psize st1 = EXF_PSIZE).
+  assert (Htr : forall size rc1 st1, 0 <= size <= LIM -> zlen f <= size -> truncate_lw ok st0 size = (rc1, st1) -> rc1 = 0 ->
+                Inv st1 /\ psize st1 = EXF_PSIZE /\ slots st1 = []).
   { intros size rc1 st1 Hs Hge Et Hrc1. subst rc1. unfold truncate_lw in Et. simpl in Et.
     rewrite uw_small in Et by lia. rewrite roundup_ps in Et by (auto; lia).
     set (n := rup size EXF_PSIZE) in Et.
@@ -1280,234 +276,519 @@ Proof.
     assert (Hnm : n mod EXF_PSIZE = 0) by (apply rup_mod; lia).
     assert (Hng : size <= n) by (apply rup_ge; lia).
     destruct (Z.eqb_spec (zlen f) n) as [Een | Een].
-    - inversion Et; subst st1. split; [| reflexivity].
+    - inversion Et; subst st1. split; [| split; reflexivity].
       apply mkInv'; [exact HP | lia | rewrite Een; exact Hnm | reflexivity | lia | exact Hm2 | destruct Hm3; [left; assumption | right; lia] | exact Hp | constructor].
     - destruct (Z.ltb_spec (zlen f) n); [| lia].
       destruct (negb (m =? 0) && (n >? m)) eqn:Emo; [discriminate Et |].
-      destruct (ok n); simpl in Et; [| discriminate Et]. inversion Et; subst st1.
-      split; [| reflexivity].
+      destruct (os_grow ok n); simpl in Et; [| discriminate Et]. inversion Et; subst st1.
+      split; [| split; reflexivity].
       apply mkInv'; [exact HP | lia | exact Hnm | apply zlen_ftrunc; lia | lia | exact Hm2 | | exact Hp | constructor].
       destruct (Z.eqb_spec m 0); [left; assumption |]. simpl in Emo.
       rewrite Z.gtb_ltb in Emo. apply Z.ltb_ge in Emo. right; lia. }
+  destruct (q_maxoff_small q && (0 <? mo) && (mo <? EXF_PSIZE)); [exfalso; inversion E as [[E1 E2]]; rewrite Hrc in E1; discriminate E1 |].
   destruct (Z.ltb_spec (zlen f) initial).
   - apply (Htr initial rc st); auto; lia.
   - destruct (aligned (zlen f) EXF_PSIZE) eqn:Eal; simpl in E.
-    + inversion E; subst rc st. split; [| reflexivity]. rewrite aligned_ps in Eal by (auto; lia). apply Z.eqb_eq in Eal.
+    + inversion E; subst rc st. split; [| split; reflexivity]. rewrite aligned_ps in Eal by (auto; lia). apply Z.eqb_eq in Eal.
       apply mkInv'; [exact HP | lia | exact Eal | reflexivity | lia | exact Hm2 | exact Hm3 | exact Hp | constructor].
     + apply (Htr (zlen f) rc st); auto; lia.
 Qed.
 
-(* ---------------------------------------------------------------------------------------------- *)
-(* 12. the flat array itself: last write wins, everything else keeps its bytes, new space is zero *)
-Lemma spec_grow_shape : forall ok a n p rc a1, 0 <= n -> spec_grow ok a n p = (rc, a1) ->
-  exists m, a_bytes a1 = ftrunc (a_bytes a) m /\ zlen (a_bytes a1) = m /\ (rc = 0 -> m = n).
+Lemma no_slots_regime : forall ok st, MapMono ok -> os_map ok 0 = true -> slots st = [] -> Shared st /\ Full st /\ Bud ok st.
 Proof.
-  intros ok a n p rc a1 Hn E. unfold spec_grow in E.
-  destruct ((zlen (a_bytes a) <? n) && negb (ok n)).
-  - inversion E; subst. simpl. exists (zlen (a_bytes a)). rewrite ftrunc_id. split; [reflexivity |]. split; [reflexivity |].
-    intros Hrc; discriminate Hrc.
-  - inversion E; subst. simpl. exists n. split; [reflexivity |]. split; [apply zlen_ftrunc; lia | intros; reflexivity].
-Qed.
-
-Lemma spec_ensure_shape : forall ps ok a sz rc a1, 0 < ps -> 0 <= sz -> spec_ensure ps ok a sz = (rc, a1) ->
-  exists m, a_bytes a1 = ftrunc (a_bytes a) m /\ zlen (a_bytes a1) = m /\ (rc = 0 -> sz <= m).
-Proof.
-  intros ps ok a sz rc a1 Hps Hsz E. unfold spec_ensure in E.
-  destruct (Z.geb_spec (zlen (a_bytes a)) sz) as [Hge | Hlt].
-  - inversion E; subst. exists (zlen (a_bytes a1)). rewrite ftrunc_id. split; [reflexivity |]. split; [reflexivity | intros; lia].
-  - pose proof (spec_policy_ge ps (a_pol a) sz (zlen (a_bytes a)) Hps) as [Hn _].
-    destruct (spec_policy ps (a_pol a) sz (zlen (a_bytes a))) as [n p] eqn:Ep. simpl in Hn.
-    destruct (negb (a_maxoff a =? 0) && (n >? a_maxoff a)).
-    + destruct (Z.ltb_spec (a_maxoff a) sz).
-      * inversion E; subst. simpl. exists (zlen (a_bytes a)). rewrite ftrunc_id. split; [reflexivity |]. split; [reflexivity |].
-        intros Hrc; discriminate Hrc.
-      * destruct (spec_grow_shape ok a (a_maxoff a) p rc a1 ltac:(lia) E) as [m [A [B C]]].
-        exists m. split; [exact A |]. split; [exact B |]. intros Hrc. specialize (C Hrc). lia.
-    + destruct (spec_grow_shape ok a n p rc a1 ltac:(lia) E) as [m [A [B C]]].
-      exists m. split; [exact A |]. split; [exact B |]. intros Hrc. specialize (C Hrc). lia.
-Qed.
-
-Lemma flat_read_after_write : forall ps ok a off d sp a', 0 < ps -> 0 <= off ->
-  spec_write ps ok a off d = (0, sp, a') -> spec_read a' off (zlen d) = d /\ sp = zlen d.
-Proof.
-  intros ps ok a off d sp a' Hps Hoff E. pose proof (zlen_nonneg d). unfold spec_write in E.
-  destruct (negb (a_maxoff a =? 0) && (off + zlen d >? a_maxoff a)); [discriminate E |].
-  destruct (spec_ensure ps ok a (off + zlen d)) as [rc1 a1] eqn:Ee.
-  destruct (spec_ensure_shape ps ok a (off + zlen d) rc1 a1 Hps ltac:(lia) Ee) as [m [_ [Hm Hge]]].
-  destruct (Z.eqb_spec rc1 0) as [Hz | Hnz]; simpl in E; [| inversion E; congruence].
-  inversion E; subst sp a'. unfold spec_read. simpl. specialize (Hge Hz). split; [| reflexivity].
-  apply pread_splice_same. lia.
-Qed.
-
-(* outside the written range the bytes are the old ones, extended by zeros where the file grew *)
-Lemma flat_write_frame : forall ps ok a off d sp a' b n, 0 < ps -> 0 <= off -> 0 <= b -> 0 <= n ->
-  spec_write ps ok a off d = (0, sp, a') -> (b + n <= off \/ off + zlen d <= b) ->
-  spec_read a' b n = pread (ftrunc (a_bytes a) (zlen (a_bytes a'))) b n.
-Proof.
-  intros ps ok a off d sp a' b n Hps Hoff Hb Hn E Hout. pose proof (zlen_nonneg d). unfold spec_write in E.
-  destruct (negb (a_maxoff a =? 0) && (off + zlen d >? a_maxoff a)); [discriminate E |].
-  destruct (spec_ensure ps ok a (off + zlen d)) as [rc1 a1] eqn:Ee.
-  destruct (spec_ensure_shape ps ok a (off + zlen d) rc1 a1 Hps ltac:(lia) Ee) as [m [Hb1 [Hm Hge]]].
-  destruct (Z.eqb_spec rc1 0) as [Hz | Hnz]; simpl in E; [| inversion E; congruence].
-  inversion E; subst sp a'. unfold spec_read. simpl. specialize (Hge Hz).
-  rewrite zlen_splice by lia. rewrite Hm. rewrite <- Hb1.
-  destruct Hout; [apply pread_splice_before; lia | apply pread_splice_after; lia].
-Qed.
-
-(* zero where nothing was written: the bytes a size change adds are zeros *)
-Lemma ftrunc_zero_tail : forall f n b k, zlen f <= b -> 0 <= k -> b + k <= n -> pread (ftrunc f n) b k = zeros k.
-Proof.
-  intros f n b k Hb Hk Hn. pose proof (zlen_nonneg f). unfold ftrunc, pread.
-  rewrite (ztake_all n f) by lia.
-  replace (zdrop b (f ++ zeros (n - zlen f))) with (zdrop (b - zlen f) (zeros (n - zlen f)))
-    by (rewrite <- (zdrop_app_more f (zeros (n - zlen f)) (b - zlen f)) by lia; f_equal; lia).
-  unfold zdrop, ztake, zeros.
-  assert (Hrep : forall j m, (j <= m)%nat -> firstn j (repeat 0 m) = repeat 0 j).
-  { induction j as [| j IHj]; intros m Hjm; [reflexivity |]. destruct m; [lia |]. simpl. f_equal. apply IHj. lia. }
-  assert (Hsk : forall j m, skipn j (repeat 0 m) = repeat 0 (m - j)).
-  { induction j as [| j IHj]; intros m; [rewrite Nat.sub_0_r; reflexivity |]. destruct m; [reflexivity |]. simpl. apply IHj. }
-  rewrite Hsk. apply Hrep. lia.
+  intros ok st HM H0 Hs. unfold Shared, Full, Bud, BudL, SharedL, FullL. rewrite Hs. simpl. repeat split; auto.
 Qed.
 
 (* ---------------------------------------------------------------------------------------------- *)
-(* 13. a growth the operating system refuses.  No side condition on the arguments is needed here (they may
-   wrap): only the layout invariant, which makes the `truncfail` exit of _exfile_truncate_lw the identity.
-   (a) a call that answers the I/O error has changed nothing but, possibly, the context of the resize policy;
-   (b) whenever the reported size has grown, the operating system accepted exactly that size. *)
+(* 12. the refusals of the operating system.  No side condition on the arguments is needed here (they may wrap).
+   (a) a call that answers the I/O error (growth refused) or IW_ERROR_ERRNO (a window cannot be mapped) has left the bytes of the
+       file, the size and the limit as they were; the windows are the same windows (offset, maximal length, kind), possibly
+       remapped or left unmapped;
+   (b) when no refused mapping was outstanding, a refused growth changes nothing but, possibly, the context of the policy;
+   (c) whenever the reported size has grown, the operating system accepted exactly that size. *)
 Definition os_facts (ok : os_ok) (st : exf) (rc : Z) (st' : exf) : Prop :=
-  (rc = EXF_E_IO -> st' = set_pol st (pol st')) /\ (fsize st < fsize st' -> ok (fsize st') = true).
+  ((rc = EXF_E_IO \/ rc = EXF_E_ERRNO) -> file st' = file st /\ fsize st' = fsize st /\ GeoSame (slots st) (slots st')) /\
+  maxoff st' = maxoff st /\ psize st' = psize st /\
+  (Full st -> rc = EXF_E_IO -> st' = set_pol st (pol st')) /\
+  (fsize st < fsize st' -> os_grow ok (fsize st') = true).
 
-Lemma set_pol_same : forall st, set_pol st (pol st) = st.
-Proof. intros st. destruct st; reflexivity. Qed.
-
-Lemma truncate_lw_os : forall ok st size rc st', SlotsInv (psize st) (fsize st) (slots st) ->
-  truncate_lw ok st size = (rc, st') -> os_facts ok st rc st'.
+Lemma os_facts_same : forall ok st rc, rc <> EXF_E_IO -> rc <> EXF_E_ERRNO -> os_facts ok st rc st.
 Proof.
-  intros ok st size rc st' HS E. unfold truncate_lw in E. cbv zeta in E.
+  intros ok st rc H1 H2. unfold os_facts. split; [intros [H | H]; contradiction |]. do 2 (split; [reflexivity |]).
+  split; [intros _ H; contradiction | intros; lia].
+Qed.
+
+Lemma truncate_lw_os : forall ok st size rc st', zlen (file st) = fsize st -> lens_ok (slots st) -> Bud ok st ->
+  truncate_lw ok st size = (rc, st') -> os_facts ok st rc st' /\ pol st' = pol st.
+Proof.
+  intros ok st size rc st' Hfl HL HB E. unfold truncate_lw in E. cbv zeta in E.
   set (n := IW_ROUNDUP (uw 64 size) (psize st)) in E.
   destruct (Z.eqb_spec (fsize st) n) as [Heq | Hne].
-  { inversion E; subst rc st'. split; [intros Hrc; discriminate Hrc | intros; lia]. }
+  { inversion E; subst rc st'. split; [apply os_facts_same; discriminate | reflexivity]. }
   destruct (Z.ltb_spec (fsize st) n) as [Hlt | Hge].
   - destruct (negb (maxoff st =? 0) && (n >? maxoff st)).
-    { inversion E; subst rc st'. split; [intros Hrc; discriminate Hrc | intros; lia]. }
-    destruct (ok n) eqn:Eok; simpl in E.
-    + inversion E; subst rc st'. simpl. split; [intros Hrc; discriminate Hrc | intros _; exact Eok].
-    + rewrite truncfail_id in E by exact HS. inversion E; subst rc st'.
-      split; [intros _; symmetry; apply set_pol_same | intros; lia].
-  - inversion E; subst rc st'. split; [intros Hrc; discriminate Hrc | simpl; intros; lia].
+    { inversion E; subst rc st'. split; [apply os_facts_same; discriminate | reflexivity]. }
+    destruct (os_grow ok n) eqn:Eok; simpl in E.
+    + destruct (initmmap ok (psize st) n (slots st)) as [rc1 ss1] eqn:Ei.
+      destruct (initmmap_res ok _ _ _ _ _ HB HL Ei) as [R1 [B1 [_ D1]]].
+      destruct (Z.eqb_spec rc1 0) as [Hz | Hnz].
+      * inversion E; subst rc st'. split; [| reflexivity]. unfold os_facts. simpl.
+        split; [intros [H | H]; discriminate H |]. do 2 (split; [reflexivity |]). split; [intros _ H; discriminate H | intros _; exact Eok].
+      * destruct D1 as [D1 | [D1 _]]; [contradiction |]. subst rc1.
+        destruct (initmmap ok (psize st) (fsize st) ss1) as [rc2 ss2] eqn:Ei2.
+        destruct (initmmap_res ok _ _ _ _ _ B1 (InitRes_lens _ _ _ _ R1 HL) Ei2) as [R2 _].
+        simpl in E. inversion E; subst rc st'. split; [| reflexivity]. unfold os_facts. simpl.
+        split. { intros _. split; [apply ftrunc_back; [exact Hfl | lia] |]. split; [reflexivity |].
+                 eapply GeoSame_trans; eapply InitRes_geo; eassumption. }
+        do 2 (split; [reflexivity |]). split; [intros _ H; exfalso; apply E_IO_ERRNO; symmetry; exact H | intros; lia].
+    + destruct (initmmap ok (psize st) (fsize st) (slots st)) as [rc1 ss1] eqn:Ei.
+      destruct (initmmap_res ok _ _ _ _ _ HB HL Ei) as [R1 _].
+      simpl in E. inversion E; subst rc st'. split; [| reflexivity]. unfold os_facts. simpl.
+      split; [intros _; split; [reflexivity | split; [reflexivity | eapply InitRes_geo; eassumption]] |].
+      do 2 (split; [reflexivity |]). split; [| intros; lia].
+      intros HF _. unfold initmmap in Ei. rewrite initmmap_from_full in Ei by exact HF. inversion Ei; subst ss1.
+      rewrite set_slots_id. symmetry. apply set_pol_same.
+  - destruct (initmmap ok (psize st) n (slots st)) as [rc1 ss1] eqn:Ei.
+    destruct (initmmap_res ok _ _ _ _ _ HB HL Ei) as [R1 [B1 [_ D1]]].
+    destruct (Z.eqb_spec rc1 0) as [Hz | Hnz].
+    + inversion E; subst rc st'. split; [| reflexivity]. unfold os_facts. simpl.
+      split; [intros [H | H]; discriminate H |]. do 2 (split; [reflexivity |]). split; [intros _ H; discriminate H | intros; lia].
+    + destruct D1 as [D1 | [D1 _]]; [contradiction |]. subst rc1.
+      destruct (initmmap ok (psize st) (fsize st) ss1) as [rc2 ss2] eqn:Ei2.
+      destruct (initmmap_res ok _ _ _ _ _ B1 (InitRes_lens _ _ _ _ R1 HL) Ei2) as [R2 _].
+      simpl in E. inversion E; subst rc st'. split; [| reflexivity]. unfold os_facts. simpl.
+      split; [intros _; split; [reflexivity | split; [reflexivity | eapply GeoSame_trans; eapply InitRes_geo; eassumption]] |].
+      do 2 (split; [reflexivity |]). split; [intros _ H; exfalso; apply E_IO_ERRNO; symmetry; exact H | intros; lia].
 Qed.
 
-Lemma ensure_size_lw_os : forall q ok st sz rc st', SlotsInv (psize st) (fsize st) (slots st) ->
+Lemma ensure_size_lw_os : forall q ok st sz rc st', zlen (file st) = fsize st -> lens_ok (slots st) -> Bud ok st ->
   ensure_size_lw q ok st sz = (rc, st') -> os_facts ok st rc st'.
 Proof.
-  intros q ok st sz rc st' HS E. unfold ensure_size_lw in E.
+  intros q ok st sz rc st' Hfl HL HB E. unfold ensure_size_lw in E.
   destruct (fsize st >=? uw 64 sz).
-  { inversion E; subst rc st'. split; [intros Hrc; discriminate Hrc | intros; lia]. }
+  { inversion E; subst rc st'. apply os_facts_same; discriminate. }
   destruct (policy_call q (psize st) (pol st) sz (fsize st)) as [nsz pol'].
+  assert (Hpol : forall x, x <> EXF_E_IO -> x <> EXF_E_ERRNO -> os_facts ok st x (set_pol st pol')).
+  { intros x H1 H2. unfold os_facts. simpl. split; [intros [H | H]; contradiction |]. do 2 (split; [reflexivity |]).
+    split; [intros _ H; contradiction | intros; lia]. }
   assert (Htr : forall n, truncate_lw ok (set_pol st pol') n = (rc, st') -> os_facts ok st rc st').
-  { intros n Et. destruct (truncate_lw_os ok (set_pol st pol') n rc st' HS Et) as [A B]. split; [| exact B].
-    intros Hrc. specialize (A Hrc). rewrite A. simpl. destruct st; reflexivity. }
+  { intros n Et. destruct (truncate_lw_os ok (set_pol st pol') n rc st' Hfl HL HB Et) as [[A [B [C [D F]]]] P]. simpl in *.
+    unfold os_facts. split; [exact A |]. split; [exact B |]. split; [exact C |]. split; [| exact F].
+    intros HF Hrc. rewrite (D HF Hrc). simpl. reflexivity. }
   destruct ((nsz <? sz) || negb (aligned nsz (psize st))).
-  { inversion E; subst rc st'. split; [intros Hrc; discriminate Hrc | simpl; intros; lia]. }
+  { inversion E; subst rc st'. apply Hpol; discriminate. }
   destruct (negb (maxoff st =? 0) && (uw 64 nsz >? maxoff st)).
   - destruct (sw 64 (maxoff st) <? sz).
-    + inversion E; subst rc st'. split; [intros Hrc; discriminate Hrc | simpl; intros; lia].
+    + inversion E; subst rc st'. apply Hpol; discriminate.
     + exact (Htr _ E).
   - exact (Htr _ E).
 Qed.
 
-Lemma exfile_write_os : forall q ok st off data rc sp st', SlotsInv (psize st) (fsize st) (slots st) ->
-  exfile_write q ok st off data = (rc, sp, st') -> os_facts ok st rc st' /\ (rc = EXF_E_IO -> sp = 0).
+(* what the later part of a call (after its size request) may do: it answers neither of the two refusals and keeps size,
+   limit and page size *)
+Lemma os_facts_then : forall ok st rc1 st1 rc st', os_facts ok st rc1 st1 -> rc1 = 0 ->
+  rc <> EXF_E_IO -> rc <> EXF_E_ERRNO -> fsize st' = fsize st1 -> maxoff st' = maxoff st1 -> psize st' = psize st1 ->
+  os_facts ok st rc st'.
 Proof.
-  intros q ok st off data rc sp st' HS E. unfold exfile_write in E. cbv zeta in E.
+  intros ok st rc1 st1 rc st' [A [B [C [D F]]]] Hz H1 H2 Hf Hm Hp. unfold os_facts.
+  split; [intros [H | H]; contradiction |]. split; [congruence |]. split; [congruence |].
+  split; [intros _ H; contradiction | rewrite Hf; exact F].
+Qed.
+
+Lemma exfile_write_os : forall q ok st off data rc sp st', zlen (file st) = fsize st -> lens_ok (slots st) -> Bud ok st ->
+  exfile_write q ok st off data = (rc, sp, st') -> os_facts ok st rc st' /\ (rc <> 0 -> sp = 0).
+Proof.
+  intros q ok st off data rc sp st' Hfl HL HB E. unfold exfile_write in E. cbv zeta in E.
   destruct ((off <? 0) || (sw 64 (off + zlen data) <? 0)).
-  { inversion E; subst rc sp st'. split; [split; [intros Hrc; discriminate Hrc | intros; lia] | reflexivity]. }
+  { inversion E; subst rc sp st'. split; [apply os_facts_same; discriminate | reflexivity]. }
   destruct (negb (maxoff st =? 0) && (uw 64 (off + zlen data) >? maxoff st)).
-  { inversion E; subst rc sp st'. split; [split; [intros Hrc; discriminate Hrc | intros; lia] | reflexivity]. }
+  { inversion E; subst rc sp st'. split; [apply os_facts_same; discriminate | reflexivity]. }
   assert (Hens : forall rc1 st1, (if sw 64 (off + zlen data) >? fsize st then ensure_size_lw q ok st (sw 64 (off + zlen data)) else (0, st)) = (rc1, st1) ->
                  os_facts ok st rc1 st1).
   { intros rc1 st1 E1. destruct (sw 64 (off + zlen data) >? fsize st).
-    - exact (ensure_size_lw_os q ok st _ rc1 st1 HS E1).
-    - inversion E1; subst rc1 st1. split; [intros Hrc; discriminate Hrc | intros; lia]. }
+    - exact (ensure_size_lw_os q ok st _ rc1 st1 Hfl HL HB E1).
+    - inversion E1; subst rc1 st1. apply os_facts_same; discriminate. }
   destruct (if sw 64 (off + zlen data) >? fsize st then ensure_size_lw q ok st (sw 64 (off + zlen data)) else (0, st)) as [rc1 st1] eqn:E1.
-  destruct (Hens rc1 st1 eq_refl) as [A B].
+  pose proof (Hens rc1 st1 eq_refl) as H1.
   destruct (Z.eqb_spec rc1 0) as [Hz | Hnz]; simpl in E.
   - destruct (write_pieces (psize st1) (split_all (slots st1) off (zlen data)) data (file st1) (slots st1)) as [[f' ss'] |].
-    + inversion E; subst rc sp st'. split; [split; [intros Hrc; discriminate Hrc | simpl; exact B] | intros Hrc; discriminate Hrc].
-    + inversion E; subst rc sp st'. split; [split; [intros Hrc; discriminate Hrc | exact B] | reflexivity].
-  - inversion E; subst rc sp st'. split; [split; [exact A | exact B] | reflexivity].
+    + inversion E; subst rc sp st'. split; [| intros H; contradiction]. eapply os_facts_then; eauto; discriminate.
+    + inversion E; subst rc sp st'. split; [| reflexivity]. eapply os_facts_then; eauto; discriminate.
+  - inversion E; subst rc sp st'. split; [exact H1 | reflexivity].
 Qed.
 
-Lemma exfile_copy_os : forall q ok st off siz noff rc st', SlotsInv (psize st) (fsize st) (slots st) ->
+Lemma exfile_copy_os : forall q ok st off siz noff rc st', zlen (file st) = fsize st -> lens_ok (slots st) -> Bud ok st ->
   exfile_copy q ok st off siz noff = (rc, st') -> os_facts ok st rc st'.
 Proof.
-  intros q ok st off siz noff rc st' HS E. unfold exfile_copy in E.
+  intros q ok st off siz noff rc st' Hfl HL HB E. unfold exfile_copy in E.
   assert (Hens : forall rc0 st0, (if q_copy_ensures q then ensure_size_lw q ok st (sw 64 (noff + siz)) else (0, st)) = (rc0, st0) ->
                  os_facts ok st rc0 st0).
   { intros rc0 st0 E0. destruct (q_copy_ensures q).
-    - exact (ensure_size_lw_os q ok st _ rc0 st0 HS E0).
-    - inversion E0; subst rc0 st0. split; [intros Hrc; discriminate Hrc | intros; lia]. }
+    - exact (ensure_size_lw_os q ok st _ rc0 st0 Hfl HL HB E0).
+    - inversion E0; subst rc0 st0. apply os_facts_same; discriminate. }
   destruct (if q_copy_ensures q then ensure_size_lw q ok st (sw 64 (noff + siz)) else (0, st)) as [rc0 st0] eqn:E0.
-  destruct (Hens rc0 st0 eq_refl) as [A B].
+  pose proof (Hens rc0 st0 eq_refl) as H0.
   destruct (Z.eqb_spec rc0 0) as [Hz | Hnz]; simpl in E.
-  2:{ inversion E; subst rc st'. split; assumption. }
-  (* from here on the size is that of st0 and the answer is 0, the overlap refusal or a crash *)
-  assert (Hfile : forall rcf stf, (let '(rc, f') := file_copy (file st0) off siz noff in (rc, set_file st0 f')) = (rcf, stf) ->
+  2:{ inversion E; subst rc st'. exact H0. }
+  assert (Hfile : forall rcf stf, (let '(rc, f') := file_copy q (file st0) off siz noff in (rc, set_file st0 f')) = (rcf, stf) ->
                   os_facts ok st rcf stf).
   { intros rcf stf Ef. unfold file_copy in Ef.
-    destruct (negb (IW_RANGES_OVERLAP off (off + siz) noff (noff + siz) =? 0) && (noff >? off));
-      inversion Ef; subst rcf stf; (split; [intros Hrc; discriminate Hrc | simpl; exact B]). }
+    destruct (negb (IW_RANGES_OVERLAP off (off + siz) noff (noff + siz) =? 0) && (noff >? off)); [destruct (q_copy_fwd q) |];
+      inversion Ef; subst rcf stf; (eapply os_facts_then; eauto; discriminate). }
   destruct (slots st0) as [| s tl]; [exact (Hfile rc st' E) |].
   destruct ((0 <? s_len s) && (s_off s =? 0) && (s_len s >=? uw 64 (noff + siz))); [| exact (Hfile rc st' E)].
   destruct (q_copy_src q && negb (s_len s >=? uw 64 (off + siz))); [exact (Hfile rc st' E) |].
   destruct (win_read (psize st0) (file st0) s off siz) as [b |].
   - destruct (win_write (psize st0) (file st0) s noff b) as [[s' f'] |];
-      inversion E; subst rc st'; (split; [intros Hrc; discriminate Hrc | simpl; exact B]).
-  - inversion E; subst rc st'. split; [intros Hrc; discriminate Hrc | exact B].
+      inversion E; subst rc st'; (eapply os_facts_then; eauto; discriminate).
+  - inversion E; subst rc st'. eapply os_facts_then; eauto; discriminate.
 Qed.
 
-Lemma step_os : forall q ok st o r st', Inv st -> step q ok st o = (r, st') ->
-  (o_rc r = EXF_E_IO -> st' = set_pol st (pol st') /\ o_sp r = 0) /\ (fsize st < fsize st' -> ok (fsize st') = true).
+Lemma sync_mmap_rc : forall ss off, sync_mmap ss off = 0 \/ sync_mmap ss off = EXF_E_NOTMM.
+Proof. induction ss as [| s tl IH]; intros off; simpl; [auto |]. destruct (s_off s =? off); [destruct (s_len s =? 0); auto | apply IH]. Qed.
+
+Lemma step_os : forall q ok st o r st', Inv st -> Bud ok st -> step q ok st o = (r, st') ->
+  ((o_rc r = EXF_E_IO \/ o_rc r = EXF_E_ERRNO) ->
+     file st' = file st /\ fsize st' = fsize st /\ maxoff st' = maxoff st /\ GeoSame (slots st) (slots st') /\ o_sp r = 0) /\
+  (Full st -> o_rc r = EXF_E_IO -> st' = set_pol st (pol st')) /\
+  (fsize st < fsize st' -> os_grow ok (fsize st') = true).
 Proof.
-  intros q ok st o r st' HI E. pose proof (inv_slots st HI) as HS. destruct o; simpl in E.
-  - destruct (exfile_write q ok st off d) as [[rc sp] st1] eqn:Ew. inversion E; subst r st'. simpl.
-    destruct (exfile_write_os q ok st off d rc sp st1 HS Ew) as [[A B] C]. split; [intros Hrc; split; auto | exact B].
-  - destruct (exfile_read st off n) as [[rc sp] b] eqn:Er. inversion E; subst r st'. simpl.
-    split; [| intros; lia]. intros Hrc. exfalso. unfold exfile_read in Er.
-    destruct ((off <? 0) || (sw 64 (off + n) <? 0)); [injection Er as H1 H2 H3; rewrite <- H1 in Hrc; discriminate Hrc |].
-    destruct (read_pieces _ _ _ _); injection Er as H1 H2 H3; rewrite <- H1 in Hrc; discriminate Hrc.
-  - destruct (exfile_copy q ok st off siz noff) as [rc st1] eqn:Ec. inversion E; subst r st'. simpl.
-    destruct (exfile_copy_os q ok st off siz noff rc st1 HS Ec) as [A B]. split; [intros Hrc; split; auto | exact B].
-  - destruct (truncate_lw ok st sz) as [rc st1] eqn:Et. inversion E; subst r st'. simpl.
-    destruct (truncate_lw_os ok st sz rc st1 HS Et) as [A B]. split; [intros Hrc; split; auto | exact B].
-  - destruct (ensure_size_lw q ok st sz) as [rc st1] eqn:Ee. inversion E; subst r st'. simpl.
-    destruct (ensure_size_lw_os q ok st sz rc st1 HS Ee) as [A B]. split; [intros Hrc; split; auto | exact B].
-  - destruct (add_mmap_lw st off maxlen flags) as [rc st1] eqn:Ea. inversion E; subst r st'. simpl.
+  intros q ok st o r st' HI HB E. pose proof (inv_file st HI) as Hfl. pose proof (SlotsInv_lens _ _ _ (inv_slots st HI)) as HL.
+  assert (Hfin : forall rc sp d, os_facts ok st rc st' -> (rc <> 0 -> sp = 0) -> r = mkOut rc sp d ->
+    ((o_rc r = EXF_E_IO \/ o_rc r = EXF_E_ERRNO) ->
+       file st' = file st /\ fsize st' = fsize st /\ maxoff st' = maxoff st /\ GeoSame (slots st) (slots st') /\ o_sp r = 0) /\
+    (Full st -> o_rc r = EXF_E_IO -> st' = set_pol st (pol st')) /\
+    (fsize st < fsize st' -> os_grow ok (fsize st') = true)).
+  { intros rc sp d [A [B [C [D F]]]] Hsp ->. simpl. split; [| split; [exact D | exact F]].
+    intros Hrc. destruct (A Hrc) as [A1 [A2 A3]]. repeat split; auto. apply Hsp. destruct Hrc as [-> | ->]; discriminate. }
+  assert (Hnone : forall rc sp d, st' = st -> rc <> EXF_E_IO -> rc <> EXF_E_ERRNO -> r = mkOut rc sp d ->
+    ((o_rc r = EXF_E_IO \/ o_rc r = EXF_E_ERRNO) ->
+       file st' = file st /\ fsize st' = fsize st /\ maxoff st' = maxoff st /\ GeoSame (slots st) (slots st') /\ o_sp r = 0) /\
+    (Full st -> o_rc r = EXF_E_IO -> st' = set_pol st (pol st')) /\
+    (fsize st < fsize st' -> os_grow ok (fsize st') = true)).
+  { intros rc sp d -> H1 H2 ->. simpl. split; [intros [H | H]; contradiction |]. split; [intros _ H; contradiction | intros; lia]. }
+  destruct o; simpl in E.
+  - destruct (exfile_write q ok st off d) as [[rc sp] st1] eqn:Ew. inversion E; subst r st'.
+    destruct (exfile_write_os q ok st off d rc sp st1 Hfl HL HB Ew) as [A B]. eapply Hfin; eauto.
+  - destruct (exfile_read st off n) as [[rc sp] b] eqn:Er. inversion E; subst r st'.
+    assert (rc = 0 \/ rc = EXF_E_OOB \/ rc = EXF_CRASH).
+    { unfold exfile_read in Er. destruct ((off <? 0) || (sw 64 (off + n) <? 0)); [inversion Er; auto |].
+      destruct (read_pieces _ _ _ _); inversion Er; auto. }
+    eapply Hnone; eauto; destruct H as [-> | [-> | ->]]; discriminate.
+  - destruct (exfile_copy q ok st off siz noff) as [rc st1] eqn:Ec. inversion E; subst r st'.
+    pose proof (exfile_copy_os q ok st off siz noff rc st1 Hfl HL HB Ec) as A. eapply Hfin; eauto.
+  - destruct (truncate_lw ok st sz) as [rc st1] eqn:Et. inversion E; subst r st'.
+    destruct (truncate_lw_os ok st sz rc st1 Hfl HL HB Et) as [A _]. eapply Hfin; eauto.
+  - destruct (ensure_size_lw q ok st sz) as [rc st1] eqn:Ee. inversion E; subst r st'.
+    pose proof (ensure_size_lw_os q ok st sz rc st1 Hfl HL HB Ee) as A. eapply Hfin; eauto.
+  - destruct (add_mmap_lw ok st off maxlen flags) as [rc st1] eqn:Ea. inversion E; subst r st'. simpl.
     unfold add_mmap_lw in Ea.
-    destruct (negb (aligned off (psize st))); [inversion Ea; subst; split; [intros Hrc; discriminate Hrc | intros; lia] |].
-    destruct (round_maxlen (psize st) off maxlen =? 0); [inversion Ea; subst; split; [intros Hrc; discriminate Hrc | intros; lia] |].
-    destruct (insert_slot _ _); inversion Ea; subst; (split; [intros Hrc; discriminate Hrc | simpl; intros; lia]).
+    assert (Hu : forall x, x <> EXF_E_IO -> (x, st) = (rc, st1) ->
+      ((rc = EXF_E_IO \/ rc = EXF_E_ERRNO) -> file st1 = file st /\ fsize st1 = fsize st /\ maxoff st1 = maxoff st /\ GeoSame (slots st) (slots st1) /\ 0 = 0) /\
+      (Full st -> rc = EXF_E_IO -> st1 = set_pol st (pol st1)) /\ (fsize st < fsize st1 -> os_grow ok (fsize st1) = true)).
+    { intros x Hx Ex. inversion Ex; subst. split; [intros _; repeat split; auto; apply GeoSame_refl |]. split; [intros _ H; contradiction | intros; lia]. }
+    destruct (negb (aligned off (psize st))); [apply (Hu EXF_E_NOT_ALIGNED ltac:(discriminate) Ea) |].
+    destruct (round_maxlen (psize st) off maxlen =? 0); [apply (Hu EXF_E_OOB ltac:(discriminate) Ea) |].
+    destruct (initmmap_slot ok (psize st) (fsize st) (mapped_total (slots st)) _) as [rc1 ns] eqn:Es.
+    destruct (initmmap_slot_cases _ _ _ _ _ _ _ Es) as [[-> _] | [-> _]]; simpl in Ea; [| apply (Hu EXF_E_ERRNO ltac:(discriminate) Ea)].
+    destruct (insert_slot (slots st) ns); [| apply (Hu EXF_E_OVERLAP ltac:(discriminate) Ea)].
+    inversion Ea; subst. simpl. split; [intros [H | H]; discriminate H |]. split; [intros _ H; discriminate H | intros; lia].
   - destruct (remove_mmap_lw st off) as [rc st1] eqn:Er. inversion E; subst r st'. simpl.
     unfold remove_mmap_lw in Er.
-    destruct (remove_slot _ _); inversion Er; subst; (split; [intros Hrc; discriminate Hrc | simpl; intros; lia]).
-  - inversion E; subst r st'. simpl. split; [intros Hrc; discriminate Hrc | intros; lia].
-  - inversion E; subst r st'. simpl. split; [intros Hrc; discriminate Hrc | intros; lia].
+    destruct (remove_slot _ _); inversion Er; subst; simpl; (split; [intros [H | H]; discriminate H |]; split; [intros _ H; discriminate H | intros; lia]).
+  - destruct (remap_all ok st) as [rc st1] eqn:Er. inversion E; subst r st'. simpl.
+    destruct (remap_all_spec ok st rc st1 HI HB Er) as [_ [_ [Cf [Cs [Cp [Cm [Cpo [G [D1 HFu]]]]]]]]].
+    split; [intros _; repeat split; auto |]. split; [| intros; lia].
+    intros HF _. destruct (HFu HF) as [-> _]. symmetry. apply set_pol_same.
+  - inversion E; subst r st'. eapply Hnone; try reflexivity; discriminate.
+  - destruct (probe_mmap (slots st) off) as [rc sp] eqn:Ep. inversion E; subst r st'.
+    assert (rc = 0 \/ rc = EXF_E_NOTMM).
+    { clear -Ep. revert Ep. induction (slots st) as [| s tl IH]; simpl; intros Ep; [inversion Ep; auto |].
+      destruct (s_off s =? off); [destruct (s_len s =? 0); inversion Ep; auto | exact (IH Ep)]. }
+    eapply Hnone; eauto; destruct H as [-> | ->]; discriminate.
+  - destruct (acquire_mmap (slots st) off) as [rc sp] eqn:Ep. inversion E; subst r st'.
+    assert (rc = 0 \/ rc = EXF_E_NOTMM).
+    { clear -Ep. revert Ep. induction (slots st) as [| s tl IH]; simpl; intros Ep; [inversion Ep; auto |].
+      destruct (s_off s =? off); [destruct (negb (s_len s =? 0)); inversion Ep; auto | exact (IH Ep)]. }
+    eapply Hnone; eauto; destruct H as [-> | ->]; discriminate.
+  - inversion E; subst r st'. eapply Hnone; try reflexivity; discriminate.
+  - inversion E; subst r st'.
+    eapply Hnone; try reflexivity; destruct (sync_mmap_rc (slots st) off) as [-> | ->]; discriminate.
+  - inversion E; subst r st'. eapply Hnone; try reflexivity; discriminate.
 Qed.
 
 (* on the flat array: a refused size change answers the I/O error and keeps every byte; an accepted one answers 0 *)
-Lemma spec_grow_refused : forall ok a n p, zlen (a_bytes a) < n -> ok n = false ->
+Lemma spec_grow_refused : forall ok a n p, zlen (a_bytes a) < n -> os_grow ok n = false ->
   spec_grow ok a n p = (EXF_E_IO, mkFlat (a_bytes a) (a_maxoff a) p).
-Proof. intros ok a n p Hn Hok. rewrite spec_grow_grow by exact Hn. rewrite Hok. reflexivity. Qed.
-
-(* the model: a growth within the rules that the operating system refuses is answered with the I/O error and
-   the state - size, file, windows - is exactly the one before the call *)
-Lemma truncate_lw_refused : forall ok st size, Inv st -> 0 <= size <= LIM ->
-  fsize st < rup size (psize st) -> (maxoff st = 0 \/ rup size (psize st) <= maxoff st) ->
-  ok (rup size (psize st)) = false -> truncate_lw ok st size = (EXF_E_IO, st).
 Proof.
-  intros ok st size HI Hs Hlt Hmo Hok. rewrite truncate_lw_eq by assumption. cbv zeta.
+  intros ok a n p Hn Hok. unfold spec_grow. destruct (Z.ltb_spec (zlen (a_bytes a)) n); [| lia]. rewrite Hok. reflexivity.
+Qed.
+
+(* the model: a growth within the rules that the operating system refuses is answered with the I/O error and the state - size,
+   file, windows - is exactly the one before the call (no refused mapping outstanding) *)
+Lemma truncate_lw_refused : forall ok st size, Inv st -> Full st -> 0 <= size <= LIM ->
+  fsize st < rup size (psize st) -> (maxoff st = 0 \/ rup size (psize st) <= maxoff st) ->
+  os_grow ok (rup size (psize st)) = false -> truncate_lw ok st size = (EXF_E_IO, st).
+Proof.
+  intros ok st size HI HF Hs Hlt Hmo Hok. pose proof (inv_ps st HI) as HP. pose proof (PsOk_pos _ HP). pose proof LIM_val as EL.
+  unfold truncate_lw. rewrite uw_small by lia. rewrite roundup_ps by (auto; lia). cbv zeta.
   destruct (Z.eqb_spec (fsize st) (rup size (psize st))); [lia |].
   destruct (Z.ltb_spec (fsize st) (rup size (psize st))); [| lia]. rewrite Hok. simpl.
+  unfold initmmap. rewrite initmmap_from_full by exact HF. simpl. rewrite set_slots_id.
   destruct (Z.eqb_spec (maxoff st) 0); simpl; [reflexivity |].
   destruct (Z.gtb_spec (rup size (psize st)) (maxoff st)); [lia | reflexivity].
+Qed.
+
+(* ... and a growth the operating system grants while a window that has to grow with it cannot be mapped: the answer is
+   IW_ERROR_ERRNO, the size and every byte are those before the call, and the window is served through the file from now on *)
+Lemma truncate_lw_mapfail : forall ok st size s tl, Inv st -> 0 <= size <= LIM -> slots st = s :: tl ->
+  fsize st < rup size (psize st) -> (maxoff st = 0 \/ rup size (psize st) <= maxoff st) ->
+  os_grow ok (rup size (psize st)) = true ->
+  slot_nlen (rup size (psize st)) s <> s_len s ->
+  os_map ok (mapped_total tl + slot_nlen (rup size (psize st)) s) = false ->
+  fst (truncate_lw ok st size) = EXF_E_ERRNO /\ fsize (snd (truncate_lw ok st size)) = fsize st /\
+  file (snd (truncate_lw ok st size)) = file st.
+Proof.
+  intros ok st size s tl HI Hs Hss Hlt Hmo Hg Hne Hm. pose proof (inv_ps st HI) as HP. pose proof (PsOk_pos _ HP). pose proof LIM_val as EL.
+  pose proof (inv_file st HI) as Hfl.
+  destruct (truncate_lw ok st size) as [rc st'] eqn:E. simpl.
+  unfold truncate_lw in E. rewrite uw_small in E by lia. rewrite roundup_ps in E by (auto; lia). cbv zeta in E.
+  set (n := rup size (psize st)) in *.
+  destruct (Z.eqb_spec (fsize st) n); [lia |]. destruct (Z.ltb_spec (fsize st) n); [| lia]. rewrite Hg in E. simpl in E.
+  replace (negb (maxoff st =? 0) && (n >? maxoff st)) with false in E
+    by (destruct (Z.eqb_spec (maxoff st) 0); simpl; [reflexivity |]; destruct (Z.gtb_spec n (maxoff st)); [lia | reflexivity]).
+  assert (Hpos : 0 < slot_nlen n s).
+  { pose proof (inv_slots st HI) as HS. rewrite Hss in HS. inversion HS as [| s0 tl0 [_ [_ [Hml [_ [Hl _]]]]] _ _]; subst.
+    pose proof (slot_nlen_range n s Hml). pose proof (slot_nlen_mono (fsize st) n s ltac:(lia) Hml). lia. }
+  assert (Ei : initmmap ok (psize st) n (slots st) = (EXF_E_ERRNO, unmap s :: tl)).
+  { rewrite Hss. unfold initmmap. simpl. unfold initmmap_slot.
+    destruct (Z.eqb_spec (slot_nlen n s) (s_len s)); [contradiction |].
+    destruct (Z.gtb_spec (slot_nlen n s) 0); [| lia]. rewrite Hm. reflexivity. }
+  rewrite Ei in E. simpl in E. inversion E; subst rc st'. simpl.
+  split; [reflexivity |]. split; [reflexivity |]. apply ftrunc_back; [exact Hfl | lia].
+Qed.
+
+(* ---------------------------------------------------------------------------------------------- *)
+(* 13. the queries about windows: probe_mmap, acquire_mmap and sync_mmap agree, and a window that is handed out lies
+   inside the file (whoever reads through the pointer does not fault) *)
+Lemma acquire_probe : forall ss off, acquire_mmap ss off = probe_mmap ss off.
+Proof. induction ss as [| s tl IH]; intros off; simpl; [reflexivity |]. destruct (s_off s =? off); [destruct (s_len s =? 0); reflexivity | apply IH]. Qed.
+
+Lemma sync_probe : forall ss off, sync_mmap ss off = fst (probe_mmap ss off).
+Proof. induction ss as [| s tl IH]; intros off; simpl; [reflexivity |]. destruct (s_off s =? off); [destruct (s_len s =? 0); reflexivity | apply IH]. Qed.
+
+Lemma probe_inside : forall ps fsz ss off rc sp, SlotsInv ps fsz ss -> probe_mmap ss off = (rc, sp) ->
+  (rc = 0 /\ 0 < sp /\ sp mod ps = 0 /\ off + sp <= fsz /\ exists s, In s ss /\ s_off s = off /\ s_len s = sp) \/
+  (rc = EXF_E_NOTMM /\ sp = 0).
+Proof.
+  intros ps fsz ss off rc sp HS. induction HS as [| s tl Hs Hfa Ht IH]; simpl; intros E.
+  - inversion E; auto.
+  - destruct (Z.eqb_spec (s_off s) off) as [Eo | Eo].
+    + destruct (Z.eqb_spec (s_len s) 0) as [El | El]; inversion E; subst; [right; auto | left].
+      pose proof Hs as [_ [_ [_ [_ [H5 [H6 _]]]]]]. pose proof (slot_in_file ps fsz s Hs ltac:(lia)).
+      split; [reflexivity |]. split; [lia |]. split; [exact H6 |]. split; [lia |]. exists s. auto.
+    + destruct (IH E) as [[A [B [C [D [t [Hin Ht2]]]]]] | R]; [left | right; exact R].
+      split; [exact A |]. split; [exact B |]. split; [exact C |]. split; [exact D |]. exists t. split; [right; exact Hin | exact Ht2].
+Qed.
+
+Lemma budget_any : forall st, Bud os_any st.
+Proof. intros st. split; [intros t1 t2 _ _; reflexivity | reflexivity]. Qed.
+Lemma budget_limit : forall l st, Bud (os_limit l) st.
+Proof. intros l st. split; [intros t1 t2 _ _; reflexivity | reflexivity]. Qed.
+Lemma mono_maplimit : forall b, MapMono (os_maplimit b).
+Proof. intros b t1 t2 H. simpl. intros H2. apply Z.leb_le in H2. apply Z.leb_le. lia. Qed.
+Lemma mapall_any : MapAll os_any. Proof. intros t. reflexivity. Qed.
+Lemma mapall_limit : forall l, MapAll (os_limit l). Proof. intros l t. reflexivity. Qed.
+
+(* ---------------------------------------------------------------------------------------------- *)
+(* 14. the side conditions of a history as boolean functions (used by the Examples: a concrete history is checked by
+   computation, without the states appearing in a proposition) *)
+Definition grow_ok_b (st : exf) (sz : Z) : bool :=
+  (match pol st with PMul n dn => sz * n <=? LIM | _ => true end) &&
+  (negb (maxoff st =? 0) || (fst (spec_policy (psize st) (pol st) sz (fsize st)) <=? LIM)).
+
+Lemma grow_ok_b_ok : forall st sz, grow_ok_b st sz = true -> grow_ok st sz.
+Proof.
+  intros st sz H. unfold grow_ok_b in H. apply andb_true_iff in H. destruct H as [H1 H2]. split.
+  - unfold req_ok. destruct (pol st); auto. apply Z.leb_le. exact H1.
+  - apply orb_true_iff in H2. destruct H2 as [H2 | H2]; [left | right; apply Z.leb_le; exact H2].
+    apply negb_true_iff in H2. apply Z.eqb_neq. exact H2.
+Qed.
+
+Definition rng (a b c : Z) : bool := (a <=? b) && (b <=? c).
+Lemma rng_ok : forall a b c, rng a b c = true -> a <= b <= c.
+Proof. intros a b c H. unfold rng in H. apply andb_true_iff in H. destruct H as [H1 H2]. apply Z.leb_le in H1. apply Z.leb_le in H2. lia. Qed.
+
+Definition op_ok_b (st : exf) (o : op) : bool :=
+  match o with
+  | OWrite off d => (0 <=? off) && (off + zlen d <=? LIM) && grow_ok_b st (off + zlen d)
+  | ORead off n => (0 <=? off) && (0 <=? n) && (off + n <=? LIM)
+  | OCopy off siz noff => (0 <=? off) && (0 <=? siz) && (0 <=? noff) && (off + siz <=? LIM) && (noff + siz <=? LIM) && grow_ok_b st (noff + siz)
+  | OTruncate sz => rng 0 sz LIM
+  | OEnsure sz => rng 0 sz LIM && grow_ok_b st sz
+  | OAddMmap off maxlen flags => rng 0 off LIM && (0 <=? maxlen) && (maxlen <? 2 ^ 64)
+  | _ => true
+  end.
+
+Lemma op_ok_b_ok : forall st o, op_ok_b st o = true -> op_ok st o.
+Proof.
+  intros st o H. destruct o; unfold op_ok_b in H; unfold op_ok; auto;
+    repeat match goal with
+           | H : _ && _ = true |- _ => apply andb_true_iff in H; destruct H
+           | H : (_ <=? _) = true |- _ => apply Z.leb_le in H
+           | H : (_ <? _) = true |- _ => apply Z.ltb_lt in H
+           | H : rng _ _ _ = true |- _ => apply rng_ok in H
+           | H : grow_ok_b _ _ = true |- _ => apply grow_ok_b_ok in H
+           end; change (2 ^ 64) with 18446744073709551616 in *;
+    repeat match goal with |- _ /\ _ => split end; try assumption; try exact I; lia.
+Qed.
+
+Definition shared_op_b (o : op) : bool := match o with OAddMmap _ _ flags => Z.land flags EXF_MMAP_PRIVATE =? 0 | _ => true end.
+Lemma shared_op_b_ok : forall o, shared_op_b o = true -> shared_op o.
+Proof. intros o H. destruct o; simpl in *; auto. apply Z.eqb_eq. exact H. Qed.
+
+Fixpoint runok_b (q : quirks) (ok : os_ok) (st : exf) (os : list op) : bool :=
+  match os with
+  | [] => true
+  | o :: tl => op_ok_b st o && shared_op_b o && runok_b q ok (snd (step q ok st o)) tl
+  end.
+Lemma runok_b_ok : forall q ok os st, runok_b q ok st os = true -> RunOk q ok st os.
+Proof.
+  intros q ok os. induction os as [| o tl IH]; intros st H; simpl in *; [exact I |].
+  apply andb_true_iff in H. destruct H as [H H3]. apply andb_true_iff in H. destruct H as [H1 H2].
+  split; [apply op_ok_b_ok; exact H1 |]. split; [apply shared_op_b_ok; exact H2 | apply IH; exact H3].
+Qed.
+
+Definition privkept_b (st : exf) (n : Z) : bool :=
+  forallb (fun s => negb (s_priv s) || negb (0 <? s_len s) || (slot_nlen n s =? s_len s)) (slots st).
+Lemma privkept_b_ok : forall st n, privkept_b st n = true -> PrivKept st n.
+Proof.
+  intros st n H. unfold privkept_b in H. rewrite forallb_forall in H. unfold PrivKept. apply Forall_forall. intros s Hin Hp Hl.
+  specialize (H s Hin). rewrite Hp in H. simpl in H. destruct (Z.ltb_spec 0 (s_len s)); [| lia]. simpl in H. apply Z.eqb_eq. exact H.
+Qed.
+
+Definition clean_b (s : slot) : bool := forallb (fun pg => match pg with None => true | Some _ => false end) (s_pages s).
+Lemma clean_b_ok : forall s, clean_b s = true -> clean s.
+Proof.
+  intros s H. unfold clean_b in H. rewrite forallb_forall in H. unfold clean. apply Forall_forall. intros pg Hin.
+  specialize (H pg Hin). destruct pg; [discriminate H | reflexivity].
+Qed.
+Definition harmless_b (s : slot) : bool := negb (s_priv s) || (s_len s =? 0) || clean_b s.
+Lemma harmless_b_ok : forall s, harmless_b s = true -> harmless s.
+Proof.
+  intros s H. unfold harmless_b in H. apply orb_true_iff in H. destruct H as [H | H]; [apply orb_true_iff in H; destruct H as [H | H] |].
+  - left. apply negb_true_iff. exact H.
+  - right; left. apply Z.eqb_eq. exact H.
+  - right; right. apply clean_b_ok. exact H.
+Qed.
+
+Definition copy_clean_b (ss : list slot) (off siz noff : Z) : bool :=
+  match ss with
+  | s :: _ => (0 <? s_len s) && (s_off s =? 0) && (s_len s >=? noff + siz) && (s_len s >=? off + siz)
+  | [] => false
+  end ||
+  forallb (fun s => negb (s_priv s) || negb (0 <? s_len s) ||
+                    (((off + siz <=? s_off s) || (s_off s + s_len s <=? off)) && ((noff + siz <=? s_off s) || (s_off s + s_len s <=? noff)))) ss.
+Lemma copy_clean_b_ok : forall ss off siz noff, copy_clean_b ss off siz noff = true -> copy_clean ss off siz noff.
+Proof.
+  intros ss off siz noff H. unfold copy_clean_b in H. apply orb_true_iff in H. destruct H as [H | H].
+  - left. destruct ss; [discriminate H | exact H].
+  - right. rewrite forallb_forall in H. intros s Hin Hp Hl. specialize (H s Hin). rewrite Hp in H. simpl in H.
+    destruct (Z.ltb_spec 0 (s_len s)); [| lia]. simpl in H. apply andb_true_iff in H. destruct H as [H1 H2].
+    apply orb_true_iff in H1. apply orb_true_iff in H2. rewrite !Z.leb_le in H1, H2. auto.
+Qed.
+
+Definition quiet_b (st : exf) (o : op) (st' : exf) : bool :=
+  privkept_b st (fsize st') &&
+  match o with
+  | OCopy off siz noff => copy_clean_b (slots st') off siz noff
+  | ORemoveMmap off => forallb (fun s => negb (s_off s =? off) || harmless_b s) (slots st)
+  | _ => true
+  end.
+Lemma quiet_b_ok : forall st o st', quiet_b st o st' = true -> quiet st o st'.
+Proof.
+  intros st o st' H. unfold quiet_b in H. apply andb_true_iff in H. destruct H as [H1 H2]. split; [apply privkept_b_ok; exact H1 |].
+  destruct o; auto.
+  - apply copy_clean_b_ok. exact H2.
+  - rewrite forallb_forall in H2. intros s Hin Ho. specialize (H2 s Hin). apply Z.eqb_eq in Ho. rewrite Ho in H2. simpl in H2.
+    apply harmless_b_ok. exact H2.
+Qed.
+
+Fixpoint prunok_b (q : quirks) (ok : os_ok) (st : exf) (os : list op) : bool :=
+  match os with
+  | [] => true
+  | o :: tl => let st1 := snd (step q ok st o) in op_ok_b st o && quiet_b st o st1 && prunok_b q ok st1 tl
+  end.
+Lemma prunok_b_ok : forall q ok os st, prunok_b q ok st os = true -> PRunOk q ok st os.
+Proof.
+  intros q ok os. induction os as [| o tl IH]; intros st H; simpl in *; [exact I |].
+  apply andb_true_iff in H. destruct H as [H H3]. apply andb_true_iff in H. destruct H as [H1 H2].
+  split; [apply op_ok_b_ok; exact H1 |]. split; [apply quiet_b_ok; exact H2 | apply IH; exact H3].
+Qed.
+
+(* ---------------------------------------------------------------------------------------------- *)
+(* 15. the lock of the handle: in the repaired variant only a successful acquire_mmap leaves a read lock with the caller,
+   and a caller that holds none is never blocked *)
+Lemma lstep_free : forall q ok held st o, held <= 0 ->
+  lstep q ok held st o =
+    (let '(r, st') := step q ok st o in
+     (r, match o with
+         | OAcquire _ => if o_rc r =? 0 then held + 1 else if q_acq_unlocks q then held else held + 1
+         | ORelease => held - 1
+         | _ => held
+         end, st')).
+Proof.
+  intros q ok held st o H. unfold lstep. destruct (Z.ltb_spec 0 held); [lia |]. rewrite andb_false_r. reflexivity.
+Qed.
+
+Lemma lstep_balance : forall q ok held st o r held' st', q_acq_unlocks q = true -> lstep q ok held st o = (r, held', st') ->
+  (o_rc r = EXF_HANG /\ 0 < held /\ needs_wlock st o = true /\ held' = held /\ st' = st) \/
+  ((r, st') = step q ok st o /\
+   held' = held + match o with OAcquire _ => if o_rc r =? 0 then 1 else 0 | ORelease => -1 | _ => 0 end).
+Proof.
+  intros q ok held st o r held' st' Hq E. unfold lstep in E.
+  destruct (needs_wlock st o && (0 <? held)) eqn:Eh.
+  - left. apply andb_true_iff in Eh. destruct Eh as [E1 E2]. apply Z.ltb_lt in E2. inversion E; subst. auto.
+  - right. destruct (step q ok st o) as [r1 st1]. inversion E; subst r1 held' st1. split; [reflexivity |].
+    rewrite Hq. destruct o; try lia. destruct (o_rc r =? 0); lia.
+Qed.
+
+(* ---------------------------------------------------------------------------------------------- *)
+(* 16. the configured maximum *)
+Lemma truncate_lw_maxoff : forall ok st size, maxoff (snd (truncate_lw ok st size)) = maxoff st.
+Proof.
+  intros ok st size. unfold truncate_lw. cbv zeta.
+  destruct (fsize st =? _); [reflexivity |]. destruct (fsize st <? _).
+  - destruct (negb (maxoff st =? 0) && _); [reflexivity |]. destruct (negb (os_grow ok _)); [reflexivity |].
+    destruct (initmmap ok (psize st) _ (slots st)) as [rc ss1]. destruct (rc =? 0); reflexivity.
+  - destruct (initmmap ok (psize st) _ (slots st)) as [rc ss1]. destruct (rc =? 0); reflexivity.
+Qed.
+
+(* in the repaired variant an opened file has the limit it was given (rounded down to a page), never "no limit" instead *)
+Lemma maxoff_honoured : forall q ok f initial mo p st, q_maxoff_small q = true -> PsOk EXF_PSIZE -> 0 <= mo < 2 ^ 63 ->
+  exfile_open q ok f initial mo p = (0, st) ->
+  (mo = 0 /\ maxoff st = 0) \/ (0 < maxoff st <= mo /\ mo - EXF_PSIZE < maxoff st).
+Proof.
+  intros q ok f initial mo p st Hq HP Hmo E. pose proof (PsOk_pos _ HP) as Hps. unfold exfile_open in E. rewrite Hq in E. simpl in E.
+  change (2 ^ 63) with 9223372036854775808 in Hmo.
+  destruct (Z.ltb_spec 0 mo) as [Hpos | Hz]; simpl in E.
+  - destruct (Z.ltb_spec mo EXF_PSIZE) as [Hsm | Hbig]; [discriminate E |].
+    right. assert (Hm : maxoff st = mo / EXF_PSIZE * EXF_PSIZE).
+    { destruct (Z.geb_spec mo EXF_PSIZE); [| lia]. rewrite rounddown_ps in E by (auto; lia).
+      set (st0 := mkExf f (zlen f) (mo / EXF_PSIZE * EXF_PSIZE) EXF_PSIZE [] p) in E.
+      destruct (zlen f <? initial).
+      - pose proof (truncate_lw_maxoff ok st0 initial) as Hx. rewrite E in Hx. exact Hx.
+      - destruct (negb (aligned (zlen f) EXF_PSIZE)).
+        + pose proof (truncate_lw_maxoff ok st0 (zlen f)) as Hx. rewrite E in Hx. exact Hx.
+        + inversion E; reflexivity. }
+    rewrite Hm. pose proof (Z.div_mod mo EXF_PSIZE ltac:(lia)). pose proof (Z.mod_pos_bound mo EXF_PSIZE ltac:(lia)).
+    assert (1 <= mo / EXF_PSIZE) by (apply Z.div_le_lower_bound; lia). nia.
+  - left. assert (mo = 0) by lia. subst mo. split; [reflexivity |].
+    destruct (Z.geb_spec 0 EXF_PSIZE); [lia |].
+    set (st0 := mkExf f (zlen f) 0 EXF_PSIZE [] p) in E.
+    destruct (zlen f <? initial).
+    + pose proof (truncate_lw_maxoff ok st0 initial) as Hx. rewrite E in Hx. exact Hx.
+    + destruct (negb (aligned (zlen f) EXF_PSIZE)).
+      * pose proof (truncate_lw_maxoff ok st0 (zlen f)) as Hx. rewrite E in Hx. exact Hx.
+      * inversion E; reflexivity.
 Qed.
